@@ -2,7 +2,7 @@
 From Coq Require Import NArith ZArith Lia Bool List.
 From Coq Require Import ZifyN ZifyBool.
 From MiV Require Import Gen.Consts Gen.Bins Model.Arith Proofs.Base Proofs.ArithSweeps Proofs.ArithProofs
-                        Proofs.BitsProofs Model.Api.
+                        Proofs.BitsProofs Model.Api Proofs.ApiSweeps.
 Import ListNotations.
 Ltac Zify.zify_post_hook ::= Z.div_mod_to_equations.
 Local Open Scope N_scope.
@@ -381,7 +381,7 @@ Proof.
       { unfold block_ok. cbn [b_usable b_bytes b_req b_adjust].
         assert (L : blen (if zero then zero_all (drop adj b0) else drop adj b0) = u - adj).
         { destruct zero; rewrite ?blen_zero_all, blen_drop; lia. }
-        repeat split; try lia. exact L. }
+        repeat split; solve [exact L | lia]. }
       repeat split; try reflexivity; try lia.
       intros -> i. apply byte_at_zero_all. }
     split; [rewrite <- S2; f_equal; lia|].
@@ -412,4 +412,2084 @@ Proof.
     split; [exact S2|].
     exists p, u, b0. repeat split; try reflexivity; try lia.
     intros -> i. apply byte_at_drop.
+Qed.
+
+Lemma alloc_result_st_eq s1 s2 heap size zero q blk st' :
+  st_eq s1 s2 -> alloc_result s1 heap size zero q blk st' -> alloc_result s2 heap size zero q blk st'.
+Proof.
+  intros E (A & B & C). split; [|split; [rewrite <- E; exact B|exact C]].
+  intros x. rewrite A. rewrite !lookup_add. rewrite E. reflexivity.
+Qed.
+
+Lemma free_add_fresh st p blk : lookup st p = None -> p <> NULL -> st_eq (free (add st p blk) p) st.
+Proof.
+  intros H Hn x. rewrite lookup_free, lookup_add.
+  assert (F : (p =? NULL) = false) by (apply N.eqb_neq; assumption). rewrite F. cbn [negb andb].
+  destruct (p =? x) eqn:E; [|reflexivity]. apply N.eqb_eq in E. subst x. symmetry. exact H.
+Qed.
+
+Lemma pow2_checks k : k < 64 -> ((2 ^ k =? 0) || negb (is_power_of_two (2 ^ k))) = false.
+Proof.
+  intros Hk. pose proof (pow2_pos k). rewrite is_power_of_two_pow by assumption.
+  assert (F : (2 ^ k =? 0) = false) by (apply N.eqb_neq; lia). rewrite F. reflexivity.
+Qed.
+
+(* the detailed description of the block created by an aligned allocation *)
+Definition aligned_detail (size offset alignment : N) (zero : bool) (o : oracles) (q : N) (blk : block) : Prop :=
+  (q + offset) mod alignment = 0 /\
+  exists p u bytes0, (o_ans o = Some (p, u, bytes0) \/ o_ans2 o = Some (p, u, bytes0)) /\
+    q = p + b_adjust blk /\ b_usable blk = u - b_adjust blk /\ b_adjust blk + size <= u /\
+    b_adjust blk = (if b_adjust blk =? 0 then 0 else aligned_adjust p alignment offset) /\
+    (zero = false -> forall i, byte_at (b_bytes blk) i = byte_at bytes0 (b_adjust blk + i)).
+
+Definition generic_oracles_ok (st : state) (size alignment offset : N) (o : oracles) : Prop :=
+  if (offset =? 0) && malloc_is_naturally_aligned size alignment then
+    answer_ok st size (o_ans o) /\
+    answer_ok st (overalloc_size size alignment) (o_ans2 o) /\ huge_answer_ok size alignment (o_ans2 o)
+  else answer_ok st (overalloc_size size alignment) (o_ans o) /\ huge_answer_ok size alignment (o_ans o).
+
+Lemma generic_result st heap size k offset zero o st' q path :
+  wf st -> k < 64 -> size < W64 -> offset < W64 -> generic_oracles_ok st size (2 ^ k) offset o ->
+  malloc_zero_aligned_at_generic st heap size (2 ^ k) offset zero o = (st', Some q, path) ->
+  exists blk, alloc_result st heap size zero q blk st' /\ aligned_detail size offset (2 ^ k) zero o q blk.
+Proof.
+  intros W Hk Hs Ho OK H. pose proof (pow2_pos k) as Hp.
+  unfold malloc_zero_aligned_at_generic in H. unfold generic_oracles_ok in OK.
+  destruct (MI_MAX_ALLOC_SIZE - MI_PADDING_SIZE <? size) eqn:Emax; [discriminate|].
+  apply N.ltb_ge in Emax. change MI_PADDING_SIZE with 0 in Emax. rewrite N.sub_0_r in Emax.
+  destruct ((offset =? 0) && malloc_is_naturally_aligned size (2 ^ k)) eqn:Enat.
+  - (* natural alignment *)
+    destruct OK as (A & A2 & Hh).
+    apply andb_prop in Enat as (Eo & _). apply N.eqb_eq in Eo. subst offset.
+    destruct (heap_malloc_zero st heap size zero (o_ans o)) as [st1 [p|]] eqn:HM; [|discriminate].
+    destruct (malloc_result _ _ _ _ _ _ _ W A HM) as (blk & Eb & R & Adj & u & b0 & Ea & Eu & Ebytes).
+    destruct (N.land p (wsub (2 ^ k) 1) =? 0) eqn:Eal.
+    + injection H as <- <- <-. exists blk. split; [exact R|]. unfold aligned_detail.
+      apply N.eqb_eq in Eal. rewrite wsub_small in Eal by lia. rewrite land_mask in Eal.
+      rewrite N.add_0_r. split; [exact Eal|]. exists p, u, b0.
+      destruct R as (_ & _ & _ & R4 & _). rewrite Adj, Eu. cbn [N.eqb].
+      repeat split; try lia; [left; exact Ea|]. intros -> i. rewrite Ebytes. reflexivity.
+    + (* the branch that "should never happen" *)
+      destruct R as (R1 & R2 & R3 & _).
+      assert (Hpn : p <> NULL) by (destruct R3 as (_ & _ & _ & _ & _ & R3); unfold NULL; lia).
+      assert (SE : st_eq (free st1 p) st) by (subst st1; apply free_add_fresh; assumption).
+      assert (SE' : st_eq st (free st1 p)) by (intros x; symmetry; apply SE).
+      assert (W1 : wf (free st1 p)) by (eapply wf_st_eq; eassumption).
+      assert (A2' : answer_ok (free st1 p) (overalloc_size size (2 ^ k)) (o_ans2 o)) by (eapply answer_ok_st_eq; eassumption).
+      destruct (overalloc_result _ _ _ _ _ _ _ _ _ _ W1 Hk Emax Ho A2' Hh H)
+        as (blk2 & Est & R & Al & p2 & u2 & b2 & Ea2 & Eq & Eu2 & Eadj & Hadj & Hfit & Hb).
+      exists blk2. split; [eapply alloc_result_st_eq; eassumption|]. unfold aligned_detail.
+      split; [exact Al|]. exists p2, u2, b2. repeat split; try assumption; [right; exact Ea2|].
+      destruct (b_adjust blk2 =? 0) eqn:E0; [apply N.eqb_eq in E0; exact E0|exact Eadj].
+  - destruct OK as (A & Hh).
+    destruct (overalloc_result _ _ _ _ _ _ _ _ _ _ W Hk Emax Ho A Hh H)
+      as (blk2 & Est & R & Al & p2 & u2 & b2 & Ea2 & Eq & Eu2 & Eadj & Hadj & Hfit & Hb).
+    exists blk2. split; [exact R|]. unfold aligned_detail.
+    split; [exact Al|]. exists p2, u2, b2. repeat split; try assumption; [left; exact Ea2|].
+    destruct (b_adjust blk2 =? 0) eqn:E0; [apply N.eqb_eq in E0; exact E0|exact Eadj].
+Qed.
+
+Lemma aligned_result st heap size k offset zero o st' q path :
+  wf st -> k < 64 -> size < W64 -> offset < W64 -> oracles_ok st size (2 ^ k) offset o ->
+  heap_malloc_zero_aligned_at st heap size (2 ^ k) offset zero o = (st', Some q, path) ->
+  exists blk, alloc_result st heap size zero q blk st' /\ aligned_detail size offset (2 ^ k) zero o q blk.
+Proof.
+  intros W Hk Hs Ho OK H. pose proof (pow2_pos k) as Hp.
+  unfold heap_malloc_zero_aligned_at in H. rewrite pow2_checks in H by assumption.
+  change (if (size <=? MI_SMALL_SIZE_MAX) && (2 ^ k <=? size)
+          then match o_page_free o with
+               | Some f => N.land (wadd f offset) (wsub (2 ^ k) 1) =? 0
+               | None => false end else false) with (fast_path_b size (2 ^ k) offset o) in H.
+  unfold oracles_ok in OK. fold (generic_oracles_ok st size (2 ^ k) offset o) in OK.
+  destruct (fast_path_b size (2 ^ k) offset o) eqn:Efast; [|eapply generic_result; eassumption].
+  (* fast path: a free block of the small page happens to be aligned *)
+  unfold fast_path_b in Efast.
+  destruct ((size <=? MI_SMALL_SIZE_MAX) && (2 ^ k <=? size)) eqn:Esm; [|discriminate].
+  destruct (o_page_free o) as [f|] eqn:Ef; [|discriminate].
+  destruct OK as (A & Cons).
+  destruct (page_malloc_zero zero (o_ans o)) as [[[p u] b]|] eqn:E; [|discriminate].
+  apply page_malloc_zero_some in E as (b0 & Ea & ->).
+  injection H as <- <- <-.
+  assert (p = f) by (eapply Cons; eauto). subst f.
+  apply andb_prop in Esm as (E1 & E2). apply N.leb_le in E1.
+  assert (HM : heap_malloc_zero st heap size zero (o_ans o) =
+               (add st p (mkBlock u (if zero then zero_all b0 else b0) heap size zero 0), Some p)).
+  { unfold heap_malloc_zero. rewrite Ea. rewrite alloc_block_granted; [reflexivity|assumption|].
+    unfold MI_SMALL_SIZE_MAX, MI_MAX_ALLOC_SIZE in *. lia. }
+  destruct (malloc_result _ _ _ _ _ _ _ W A HM) as (blk & Eb & R & Adj & u' & b0' & Ea' & Eu & Ebytes).
+  rewrite Ea in Ea'. injection Ea' as <- <-.
+  unfold add in Eb. injection Eb as <-.
+  eexists. split; [exact R|]. unfold aligned_detail. cbn [b_adjust b_usable b_bytes].
+  apply N.eqb_eq in Efast. rewrite land_wadd_mask in Efast by assumption.
+  split; [exact Efast|]. exists p, u, b0. destruct R as (_ & _ & _ & R4 & _). cbn [b_usable] in R4.
+  repeat split; try lia; [left; exact Ea|]. intros -> i. reflexivity.
+Qed.
+
+(* ------------------------------------------------------------------------------------- *)
+(* E. re-allocation                                                                         *)
+(* ------------------------------------------------------------------------------------- *)
+
+(* the contents of the new block after the zeroing / first-byte / copy steps *)
+Definition finish_bytes (size newsize : N) (zero fbr : bool) (p : N) (old l : list N) : list N :=
+  let l2 :=
+    if zero && (size <? newsize)
+    then zero_range (if MI_INTPTR_SIZE <=? size then size - MI_INTPTR_SIZE else 0) newsize l
+    else if fbr && (newsize =? 0) then set_byte 0 0 l else l in
+  if p =? NULL then l2 else copy_prefix old (if size <? newsize then size else newsize) l2.
+
+Lemma set_bytes_set_bytes f g b : set_bytes g (set_bytes f b) = set_bytes (fun l => g (f l)) b.
+Proof. reflexivity. Qed.
+
+Lemma option_map_set_bytes f g (o : option block) :
+  option_map (set_bytes g) (option_map (set_bytes f) o) = option_map (set_bytes (fun l => g (f l))) o.
+Proof. destruct o; reflexivity. Qed.
+
+Lemma option_map_set_bytes_id (o : option block) : o = option_map (set_bytes (fun l => l)) o.
+Proof. destruct o as [[]|]; reflexivity. Qed.
+
+Lemma lookup_realloc_finish st1 p newp size newsize zero fbr old x :
+  newp <> p ->
+  lookup (realloc_finish st1 p newp size newsize zero fbr old) x =
+    if negb (p =? NULL) && (p =? x) then None
+    else if newp =? x then option_map (set_bytes (finish_bytes size newsize zero fbr p old)) (lookup st1 x)
+    else lookup st1 x.
+Proof.
+  intros Hne. unfold realloc_finish, finish_bytes.
+  destruct (p =? NULL) eqn:Ep; cbn [negb andb].
+  - destruct (zero && (size <? newsize)); [|destruct (fbr && (newsize =? 0))];
+      rewrite ?lookup_update; try reflexivity.
+    destruct (newp =? x); [apply option_map_set_bytes_id|reflexivity].
+  - rewrite lookup_free, Ep. cbn [negb andb].
+    destruct (p =? x) eqn:Epx; [reflexivity|].
+    destruct (zero && (size <? newsize)); [|destruct (fbr && (newsize =? 0))];
+      rewrite ?lookup_update; destruct (newp =? x); try reflexivity; apply option_map_set_bytes.
+Qed.
+
+Lemma blen_finish_bytes size newsize zero fbr p old l :
+  blen (finish_bytes size newsize zero fbr p old l) = blen l.
+Proof.
+  unfold finish_bytes. destruct (p =? NULL); rewrite ?blen_copy_prefix;
+    (destruct (zero && (size <? newsize)); [apply blen_zero_range|]);
+    (destruct (fbr && (newsize =? 0)); [apply blen_set_byte|reflexivity]).
+Qed.
+
+(* the copied prefix *)
+Lemma byte_at_finish_prefix size newsize zero fbr p old l i :
+  p <> NULL -> i < blen l -> i < N.min size newsize ->
+  byte_at (finish_bytes size newsize zero fbr p old l) i = byte_at old i.
+Proof.
+  intros Hp Hl Hi. unfold finish_bytes.
+  assert (F : (p =? NULL) = false) by (apply N.eqb_neq; assumption). rewrite F.
+  rewrite byte_at_copy_prefix.
+  - assert (G : (i <? (if size <? newsize then size else newsize)) = true).
+    { apply N.ltb_lt. destruct (size <? newsize) eqn:E; [apply N.ltb_lt in E|apply N.ltb_ge in E]; lia. }
+    rewrite G. reflexivity.
+  - destruct (zero && (size <? newsize)); [rewrite blen_zero_range; assumption|].
+    destruct (fbr && (newsize =? 0)); [rewrite blen_set_byte|]; assumption.
+Qed.
+
+(* a byte that is zero in the fresh block and (if it is copied) zero in the old block is zero *)
+Lemma byte_at_finish_zero size newsize zero fbr p old l i :
+  byte_at l i = 0 -> (p <> NULL -> i < N.min size newsize -> byte_at old i = 0) ->
+  byte_at (finish_bytes size newsize zero fbr p old l) i = 0.
+Proof.
+  intros Hz Hold.
+  destruct (N.lt_ge_cases i (blen l)) as [Hl|Hl];
+    [|apply byte_at_out; rewrite blen_finish_bytes; assumption].
+  unfold finish_bytes.
+  set (l2 := if zero && (size <? newsize) then _ else _).
+  assert (L2 : blen l2 = blen l).
+  { unfold l2. destruct (zero && (size <? newsize)); [apply blen_zero_range|].
+    destruct (fbr && (newsize =? 0)); [apply blen_set_byte|reflexivity]. }
+  assert (Z2 : byte_at l2 i = 0).
+  { unfold l2. destruct (zero && (size <? newsize)).
+    - rewrite byte_at_zero_range. destruct (_ && _); [reflexivity|assumption].
+    - destruct (fbr && (newsize =? 0)); [|assumption].
+      rewrite byte_at_set_byte by assumption. destruct (i =? 0); [reflexivity|assumption]. }
+  destruct (p =? NULL) eqn:Ep; [exact Z2|]. apply N.eqb_neq in Ep.
+  rewrite byte_at_copy_prefix by (rewrite L2; assumption).
+  destruct (i <? _) eqn:E; [|exact Z2]. apply N.ltb_lt in E. apply Hold; [assumption|].
+  destruct (size <? newsize) eqn:E2; [apply N.ltb_lt in E2|apply N.ltb_ge in E2]; lia.
+Qed.
+
+(* the grown part [size, newsize) of a zeroing re-allocation is cleared explicitly *)
+Lemma byte_at_finish_grown size newsize fbr p old l i :
+  size <= i -> i < newsize -> byte_at (finish_bytes size newsize true fbr p old l) i = 0.
+Proof.
+  intros H1 H2.
+  destruct (N.lt_ge_cases i (blen l)) as [Hl|Hl];
+    [|apply byte_at_out; rewrite blen_finish_bytes; assumption].
+  unfold finish_bytes. assert (E : (size <? newsize) = true) by (apply N.ltb_lt; lia).
+  rewrite E. cbn [andb].
+  assert (Z : byte_at (zero_range (if MI_INTPTR_SIZE <=? size then size - MI_INTPTR_SIZE else 0) newsize l) i = 0).
+  { rewrite byte_at_zero_range.
+    assert (G : ((if MI_INTPTR_SIZE <=? size then size - MI_INTPTR_SIZE else 0) <=? i) = true).
+    { apply N.leb_le. destruct (MI_INTPTR_SIZE <=? size); lia. }
+    assert (G2 : (i <? newsize) = true) by (apply N.ltb_lt; assumption).
+    rewrite G, G2. reflexivity. }
+  destruct (p =? NULL); [exact Z|].
+  rewrite byte_at_copy_prefix by (rewrite blen_zero_range; assumption).
+  assert (G : (i <? size) = false) by (apply N.ltb_ge; assumption). rewrite G. exact Z.
+Qed.
+
+(* outcome of a re-allocation that moved the block *)
+Definition moved (st : state) (heap p size newsize : N) (zero fbr : bool) (st' : state) (q : N) (blk : block) : Prop :=
+  q <> p /\ lookup st q = None /\ block_ok q blk /\ newsize <= b_usable blk /\
+  b_req blk = newsize /\ b_zero blk = zero /\ b_heap blk = heap /\
+  (zero = true -> forall i, byte_at (b_bytes blk) i = 0) /\
+  forall x, lookup st' x =
+    if negb (p =? NULL) && (p =? x) then None
+    else if q =? x then Some (set_bytes (finish_bytes size newsize zero fbr p (bytes_of st p)) blk)
+    else lookup st x.
+
+Lemma moved_intro st heap p size newsize zero fbr st1 q blk :
+  (p = NULL \/ lookup st p <> None) ->
+  alloc_result st heap newsize zero q blk st1 ->
+  moved st heap p size newsize zero fbr (realloc_finish st1 p q size newsize zero fbr (bytes_of st p)) q blk.
+Proof.
+  intros Hp (E & Fr & Ok & Fit & Rq & Rz & Rh & Zb).
+  assert (Hne : q <> p).
+  { destruct Hp as [->|Hp]; [destruct Ok as (_ & _ & _ & _ & _ & Ok); unfold NULL; lia|].
+    intros ->. apply Hp. exact Fr. }
+  unfold moved. repeat (split; [assumption|]).
+  intros x. rewrite lookup_realloc_finish by assumption.
+  destruct (negb (p =? NULL) && (p =? x)); [reflexivity|].
+  rewrite E, lookup_add. destruct (q =? x); reflexivity.
+Qed.
+
+Lemma realloc_zero_cases st heap p newsize zero ans :
+  let size := usable_size st p in
+  (realloc_inplace_b size newsize = true /\
+   realloc_zero st heap p newsize zero ans = (update st p (set_req newsize), Some p)) \/
+  (realloc_inplace_b size newsize = false /\ alloc_block newsize zero 0 ans = None /\
+   realloc_zero st heap p newsize zero ans = (st, None)) \/
+  (realloc_inplace_b size newsize = false /\ exists st1 newp,
+     heap_malloc_zero st heap newsize zero ans = (st1, Some newp) /\
+     realloc_zero st heap p newsize zero ans =
+       (realloc_finish st1 p newp size newsize zero true (bytes_of st p), Some newp)).
+Proof.
+  cbv zeta. unfold realloc_zero. destruct (realloc_inplace_b (usable_size st p) newsize); [left; split; reflexivity|right].
+  destruct (heap_malloc_zero st heap newsize zero ans) as [st1 [newp|]] eqn:HM.
+  - right. split; [reflexivity|]. exists st1, newp. split; reflexivity.
+  - left. split; [reflexivity|]. split; [|reflexivity].
+    unfold heap_malloc_zero in HM. destruct (alloc_block newsize zero 0 ans) as [[[a b] c]|]; [discriminate|reflexivity].
+Qed.
+
+Lemma realloc_zero_spec st heap p newsize zero ans st' r :
+  wf st -> newsize < W64 -> answer_ok st newsize ans -> (p = NULL \/ lookup st p <> None) ->
+  realloc_zero st heap p newsize zero ans = (st', r) ->
+  let size := usable_size st p in
+  (realloc_inplace_b size newsize = true /\ r = Some p /\ st' = update st p (set_req newsize)) \/
+  (realloc_inplace_b size newsize = false /\ r = None /\ st' = st /\ (ans = None \/ MI_MAX_ALLOC_SIZE < newsize)) \/
+  (realloc_inplace_b size newsize = false /\ exists q blk, r = Some q /\ moved st heap p size newsize zero true st' q blk).
+Proof.
+  intros W Hn A Hp H. cbv zeta.
+  destruct (realloc_zero_cases st heap p newsize zero ans) as [(I & E)|[(I & AB & E)|(I & st1 & newp & HM & E)]];
+    rewrite E in H; injection H as <- <-.
+  - left. repeat split; assumption.
+  - right; left. repeat split; try assumption; try reflexivity. apply alloc_block_none in AB; assumption.
+  - right; right. split; [assumption|].
+    destruct (malloc_result _ _ _ _ _ _ _ W A HM) as (blk & Eb & R & _).
+    exists newp, blk. split; [reflexivity|]. apply moved_intro; assumption.
+Qed.
+
+(* in-place: what `update st p (set_req n)` looks like *)
+Lemma lookup_set_req st p n x :
+  lookup (update st p (set_req n)) x = if p =? x then option_map (set_req n) (lookup st x) else lookup st x.
+Proof. apply lookup_update. Qed.
+
+Lemma usable_live st p b : lookup st p = Some b -> p <> NULL -> usable_size st p = b_usable b.
+Proof.
+  intros H Hp. unfold usable_size. rewrite H.
+  assert (F : (p =? NULL) = false) by (apply N.eqb_neq; assumption). rewrite F. reflexivity.
+Qed.
+
+Lemma wf_live_nonnull st p b : wf st -> lookup st p = Some b -> p <> NULL.
+Proof. intros W H. destruct (W _ _ H) as (_ & _ & _ & _ & _ & Hp). unfold NULL. lia. Qed.
+
+Lemma eqb_refl' x : (x =? x) = true. Proof. apply N.eqb_refl. Qed.
+
+(* ---- C05 ---- *)
+
+Lemma inplace_b_spec size newsize :
+  realloc_inplace_b size newsize = true <-> newsize <= size /\ size / 2 <= newsize /\ 0 < newsize.
+Proof.
+  unfold realloc_inplace_b. rewrite !andb_true_iff, !N.leb_le, N.ltb_lt. tauto.
+Qed.
+
+Lemma moved_lookup_new st heap p size newsize zero fbr st' q blk :
+  moved st heap p size newsize zero fbr st' q blk ->
+  lookup st' q = Some (set_bytes (finish_bytes size newsize zero fbr p (bytes_of st p)) blk).
+Proof.
+  intros (Hne & _ & _ & _ & _ & _ & _ & _ & L). rewrite L.
+  assert (F : (p =? q) = false) by (apply N.eqb_neq; intros ->; apply Hne; reflexivity).
+  rewrite F, andb_false_r, N.eqb_refl. reflexivity.
+Qed.
+
+Lemma moved_lookup_old st heap p size newsize zero fbr st' q blk :
+  moved st heap p size newsize zero fbr st' q blk -> p <> NULL -> lookup st' p = None.
+Proof.
+  intros (Hne & _ & _ & _ & _ & _ & _ & _ & L) Hp. rewrite L.
+  assert (F : (p =? NULL) = false) by (apply N.eqb_neq; assumption).
+  rewrite F, N.eqb_refl. reflexivity.
+Qed.
+
+Lemma moved_lookup_other st heap p size newsize zero fbr st' q blk x :
+  moved st heap p size newsize zero fbr st' q blk -> x <> p -> x <> q -> lookup st' x = lookup st x.
+Proof.
+  intros (Hne & _ & _ & _ & _ & _ & _ & _ & L) H1 H2. rewrite L.
+  assert (F : (p =? x) = false) by (apply N.eqb_neq; intros ->; apply H1; reflexivity).
+  assert (G : (q =? x) = false) by (apply N.eqb_neq; intros ->; apply H2; reflexivity).
+  rewrite F, G, andb_false_r. reflexivity.
+Qed.
+
+Lemma moved_wf st heap p size newsize zero fbr st' q blk :
+  wf st -> moved st heap p size newsize zero fbr st' q blk -> wf st'.
+Proof.
+  intros W M x b. destruct M as (Hne & Fr & Ok & Fit & Rq & _ & _ & _ & L). rewrite L.
+  destruct (negb (p =? NULL) && (p =? x)); [discriminate|].
+  destruct (q =? x) eqn:E; [|apply W].
+  apply N.eqb_eq in E. subst x. intros H. injection H as <-.
+  unfold block_ok in *. cbn [set_bytes b_usable b_bytes b_req b_adjust]. rewrite blen_finish_bytes. exact Ok.
+Qed.
+
+Lemma realloc_prefix st heap p newsize zero ans st' q b :
+  wf st -> newsize < W64 -> answer_ok st newsize ans -> lookup st p = Some b ->
+  realloc_zero st heap p newsize zero ans = (st', Some q) ->
+  exists b', lookup st' q = Some b' /\
+    forall i, i < N.min (b_usable b) newsize -> byte_at (b_bytes b') i = byte_at (b_bytes b) i.
+Proof.
+  intros W Hn A Hb H. pose proof (wf_live_nonnull _ _ _ W Hb) as Hp.
+  assert (Hl : p = NULL \/ lookup st p <> None) by (right; rewrite Hb; discriminate).
+  destruct (realloc_zero_spec _ _ _ _ _ _ _ _ W Hn A Hl H) as [(I & E & ->)|[(I & E & _)|(I & q' & blk & E & M)]];
+    try discriminate.
+  - injection E as ->. rewrite lookup_set_req, N.eqb_refl, Hb. cbn [option_map].
+    eexists. split; [reflexivity|]. intros i _. reflexivity.
+  - injection E as <-. rewrite (moved_lookup_new _ _ _ _ _ _ _ _ _ _ M).
+    eexists. split; [reflexivity|]. intros i Hi. cbn [set_bytes b_bytes].
+    destruct M as (_ & _ & Ok & Fit & _). destruct Ok as (Ok1 & _).
+    unfold bytes_of. rewrite Hb. rewrite (usable_live _ _ _ Hb Hp) in *.
+    apply byte_at_finish_prefix; [assumption|lia|assumption].
+Qed.
+
+Lemma realloc_wf st heap p newsize zero ans st' r :
+  wf st -> newsize < W64 -> answer_ok st newsize ans -> (p = NULL \/ lookup st p <> None) ->
+  realloc_zero st heap p newsize zero ans = (st', r) -> wf st'.
+Proof.
+  intros W Hn A Hl H.
+  destruct (realloc_zero_spec _ _ _ _ _ _ _ _ W Hn A Hl H) as [(I & E & ->)|[(I & E & -> & _)|(I & q' & blk & E & M)]].
+  - intros x b. rewrite lookup_set_req. destruct (p =? x) eqn:Ex; [|apply W].
+    apply N.eqb_eq in Ex. subst x. destruct (lookup st p) as [b0|] eqn:Hb; [|discriminate].
+    cbn [option_map]. intros Hx. injection Hx as <-.
+    pose proof (W _ _ Hb) as Ok. pose proof (wf_live_nonnull _ _ _ W Hb) as Hp.
+    apply inplace_b_spec in I. rewrite (usable_live _ _ _ Hb Hp) in I.
+    unfold block_ok in *. cbn [set_req b_usable b_bytes b_req b_adjust]. repeat split; try apply Ok. lia.
+  - exact W.
+  - eapply moved_wf; eassumption.
+Qed.
+
+Lemma realloc_ge_size st heap p newsize zero ans st' q :
+  wf st -> newsize < W64 -> answer_ok st newsize ans -> (p = NULL \/ lookup st p <> None) ->
+  realloc_zero st heap p newsize zero ans = (st', Some q) ->
+  exists b', lookup st' q = Some b' /\ newsize <= b_usable b' /\ b_req b' = newsize /\
+             blen (b_bytes b') = b_usable b' /\ q <> NULL.
+Proof.
+  intros W Hn A Hl H.
+  pose proof (realloc_wf _ _ _ _ _ _ _ _ W Hn A Hl H) as W'.
+  destruct (realloc_zero_spec _ _ _ _ _ _ _ _ W Hn A Hl H) as [(I & E & ->)|[(I & E & _)|(I & q' & blk & E & M)]];
+    try discriminate.
+  - injection E as ->. apply inplace_b_spec in I.
+    assert (Hp : p <> NULL).
+    { intros ->. unfold usable_size in I. rewrite N.eqb_refl in I. lia. }
+    destruct Hl as [Hl|Hl]; [contradiction|].
+    destruct (lookup st p) as [b|] eqn:Hb; [|contradiction]. rewrite (usable_live _ _ _ Hb Hp) in I.
+    assert (L : lookup (update st p (set_req newsize)) p = Some (set_req newsize b)).
+    { rewrite lookup_set_req, N.eqb_refl, Hb. reflexivity. }
+    exists (set_req newsize b). split; [exact L|]. destruct (W' _ _ L) as (B1 & _).
+    cbn [set_req b_usable b_req b_bytes] in *. repeat split; try assumption; lia.
+  - injection E as <-. pose proof (moved_lookup_new _ _ _ _ _ _ _ _ _ _ M) as L.
+    eexists. split; [exact L|]. destruct (W' _ _ L) as (B1 & _ & _ & _ & _ & B6).
+    destruct M as (_ & _ & Ok & Fit & Rq & _).
+    cbn [set_bytes b_usable b_req b_bytes] in *. repeat split; try assumption. unfold NULL. lia.
+Qed.
+
+Lemma realloc_frees_old_iff_moved st heap p newsize zero ans st' q b :
+  wf st -> newsize < W64 -> answer_ok st newsize ans -> lookup st p = Some b ->
+  realloc_zero st heap p newsize zero ans = (st', Some q) ->
+  (lookup st' p = None <-> q <> p) /\
+  (forall x, x <> p -> x <> q -> lookup st' x = lookup st x) /\
+  (q = p -> exists b', lookup st' p = Some b' /\ b_bytes b' = b_bytes b /\ b_usable b' = b_usable b /\
+                       b_heap b' = b_heap b /\ b_adjust b' = b_adjust b).
+Proof.
+  intros W Hn A Hb H. pose proof (wf_live_nonnull _ _ _ W Hb) as Hp.
+  assert (Hl : p = NULL \/ lookup st p <> None) by (right; rewrite Hb; discriminate).
+  destruct (realloc_zero_spec _ _ _ _ _ _ _ _ W Hn A Hl H) as [(I & E & ->)|[(I & E & _)|(I & q' & blk & E & M)]];
+    try discriminate.
+  - injection E as ->.
+    assert (L : lookup (update st p (set_req newsize)) p = Some (set_req newsize b)).
+    { rewrite lookup_set_req, N.eqb_refl, Hb. reflexivity. }
+    split; [rewrite L; split; [discriminate|intros C; exfalso; apply C; reflexivity]|].
+    split.
+    + intros x Hx _. rewrite lookup_set_req.
+      assert (F : (p =? x) = false) by (apply N.eqb_neq; intros ->; apply Hx; reflexivity).
+      rewrite F. reflexivity.
+    + intros _. exists (set_req newsize b). split; [exact L|]. repeat split; reflexivity.
+  - injection E as <-. pose proof M as (Hne & _).
+    split; [split; [intros _; exact Hne|intros _; eapply moved_lookup_old; eassumption]|].
+    split; [intros x H1 H2; eapply moved_lookup_other; eassumption|].
+    intros C. contradiction.
+Qed.
+
+Lemma realloc_null_is_malloc st heap n zero ans :
+  let r := realloc_zero st heap NULL n zero ans in
+  let m := heap_malloc_zero st heap n zero ans in
+  snd r = snd m /\
+  forall x, match lookup (fst r) x, lookup (fst m) x with
+            | Some b1, Some b2 =>
+                b_usable b1 = b_usable b2 /\ b_heap b1 = b_heap b2 /\ b_req b1 = b_req b2 /\
+                b_zero b1 = b_zero b2 /\ b_adjust b1 = b_adjust b2 /\ blen (b_bytes b1) = blen (b_bytes b2) /\
+                forall i, byte_at (b_bytes b1) i = byte_at (b_bytes b2) i \/
+                          (n = 0 /\ i = 0 /\ byte_at (b_bytes b1) i = 0)
+            | None, None => True
+            | _, _ => False
+            end.
+Proof.
+  cbv zeta. unfold realloc_zero.
+  assert (I : realloc_inplace_b (usable_size st NULL) n = false).
+  { unfold usable_size, realloc_inplace_b. cbn [N.eqb NULL]. destruct (n <=? 0) eqn:E1; [|reflexivity].
+    apply N.leb_le in E1. assert (n = 0) by lia. subst n. reflexivity. }
+  rewrite I. destruct (heap_malloc_zero st heap n zero ans) as [st1 [newp|]] eqn:HM; cbn [fst snd].
+  - split; [reflexivity|]. intros x.
+    apply heap_malloc_zero_some in HM as (u & b0 & -> & ->).
+    unfold realloc_finish. change (NULL =? NULL) with true. cbv iota. change (usable_size st NULL) with 0.
+    set (blk := mkBlock u _ heap n zero 0).
+    assert (Same : forall b : block, match Some b, Some b with
+       | Some b1, Some b2 => b_usable b1 = b_usable b2 /\ b_heap b1 = b_heap b2 /\ b_req b1 = b_req b2 /\
+                b_zero b1 = b_zero b2 /\ b_adjust b1 = b_adjust b2 /\ blen (b_bytes b1) = blen (b_bytes b2) /\
+                forall i, byte_at (b_bytes b1) i = byte_at (b_bytes b2) i \/
+                          (n = 0 /\ i = 0 /\ byte_at (b_bytes b1) i = 0)
+       | None, None => True | _, _ => False end).
+    { intros b. repeat split. intros i. left. reflexivity. }
+    destruct (zero && (0 <? n)) eqn:Ez; [|destruct (n =? 0) eqn:En; cbn [andb]].
+    + rewrite lookup_update, !lookup_add. destruct (newp =? x).
+      * cbn [option_map set_bytes blk b_usable b_heap b_req b_zero b_adjust b_bytes].
+        rewrite blen_zero_range. repeat split. intros i. left.
+        apply andb_prop in Ez as (-> & _). rewrite byte_at_zero_range. rewrite byte_at_zero_all.
+        destruct (_ && _); reflexivity.
+      * destruct (lookup st x); [apply Same|exact Logic.I].
+    + rewrite lookup_update, !lookup_add. destruct (newp =? x).
+      * cbn [option_map set_bytes blk b_usable b_heap b_req b_zero b_adjust b_bytes].
+        rewrite blen_set_byte. repeat split. intros i. apply N.eqb_eq in En.
+        set (l := if zero then zero_all b0 else b0).
+        destruct (N.lt_ge_cases i (blen l)) as [Hl|Hl].
+        -- rewrite byte_at_set_byte by assumption. destruct (i =? 0) eqn:Ei.
+           ++ right. apply N.eqb_eq in Ei. repeat split; assumption.
+           ++ left. reflexivity.
+        -- left. rewrite !byte_at_out; [reflexivity|assumption|rewrite blen_set_byte; assumption].
+      * destruct (lookup st x); [apply Same|exact Logic.I].
+    + destruct (lookup (add st newp blk) x); [apply Same|exact Logic.I].
+  - split; [reflexivity|]. intros x. apply heap_malloc_zero_none in HM. subst st1.
+    destruct (lookup st x); [|exact Logic.I]. repeat split. intros i. left. reflexivity.
+Qed.
+
+Lemma realloc_zero_size_valid st heap p zero a u bytes :
+  wf st -> answer_ok st 0 (Some (a, u, bytes)) -> (p = NULL \/ lookup st p <> None) ->
+  exists st' q b', realloc_zero st heap p 0 zero (Some (a, u, bytes)) = (st', Some q) /\
+    q <> NULL /\ q <> p /\ lookup st' q = Some b' /\ block_ok q b' /\ b_req b' = 0 /\
+    (p <> NULL -> lookup st' p = None).
+Proof.
+  intros W A Hl.
+  destruct (realloc_zero st heap p 0 zero (Some (a, u, bytes))) as [st' r] eqn:H.
+  assert (Hn : 0 < W64) by (rewrite W64_val; lia).
+  pose proof (realloc_wf _ _ _ _ _ _ _ _ W Hn A Hl H) as W'.
+  destruct (realloc_zero_spec _ _ _ _ _ _ _ _ W Hn A Hl H) as [(I & E & ->)|[(I & E & _ & C)|(I & q' & blk & E & M)]].
+  - apply inplace_b_spec in I. lia.
+  - destruct C as [C|C]; [discriminate|]. unfold MI_MAX_ALLOC_SIZE in C. lia.
+  - subst r. exists st', q'. pose proof (moved_lookup_new _ _ _ _ _ _ _ _ _ _ M) as L.
+    eexists. split; [reflexivity|]. pose proof (W' _ _ L) as Ok.
+    pose proof M as (Hne & _ & _ & _ & Rq & _).
+    split; [destruct Ok as (_ & _ & _ & _ & _ & Ok); unfold NULL; lia|].
+    split; [assumption|]. split; [exact L|]. split; [exact Ok|]. split; [exact Rq|].
+    intros Hp. eapply moved_lookup_old; eassumption.
+Qed.
+
+Lemma realloc_fail_untouched st heap p newsize zero ans :
+  (snd (realloc_zero st heap p newsize zero ans) = None -> fst (realloc_zero st heap p newsize zero ans) = st) /\
+  (ans = None -> realloc_inplace_b (usable_size st p) newsize = false ->
+   realloc_zero st heap p newsize zero ans = (st, None)).
+Proof.
+  destruct (realloc_zero_cases st heap p newsize zero ans) as [(I & E)|[(I & AB & E)|(I & st1 & newp & HM & E)]];
+    rewrite E; cbn [fst snd]; split; try discriminate; try reflexivity.
+  - intros _ C. rewrite I in C. discriminate.
+  - intros -> _. unfold heap_malloc_zero, alloc_block, page_malloc_zero in HM.
+    destruct (newsize <=? MI_SMALL_SIZE_MAX); [discriminate|]. destruct (_ && _); discriminate.
+Qed.
+
+Lemma reallocf_frees_on_fail st heap p newsize ans st' :
+  (heap_reallocf st heap p newsize ans = (st', None) -> st' = free st p) /\
+  (forall q, heap_reallocf st heap p newsize ans = (st', Some q) ->
+             heap_realloc st heap p newsize ans = (st', Some q)).
+Proof.
+  unfold heap_reallocf, heap_realloc.
+  destruct (realloc_fail_untouched st heap p newsize false ans) as (F & _).
+  destruct (realloc_zero st heap p newsize false ans) as [st1 [q|]] eqn:E; cbn [fst snd] in F.
+  - split; [discriminate|]. intros q' H. exact H.
+  - rewrite (F eq_refl). split; [|intros q' H; destruct (negb (p =? NULL)); discriminate].
+    unfold free. destruct (p =? NULL); cbn [negb]; intros H; injection H as <-; reflexivity.
+Qed.
+
+Lemma expand_never_moves st p n :
+  (expand st p n = Some p <-> p <> NULL /\ n <= usable_size st p) /\
+  (forall q, expand st p n = Some q -> q = p).
+Proof.
+  unfold expand. destruct (p =? NULL) eqn:Ep.
+  - apply N.eqb_eq in Ep. split; [split; [discriminate|intros (C & _); contradiction]|discriminate].
+  - apply N.eqb_neq in Ep. destruct (usable_size st p <? n) eqn:E.
+    + apply N.ltb_lt in E. split; [split; [discriminate|intros (_ & C); lia]|discriminate].
+    + apply N.ltb_ge in E. split; [split; [intros _; split; assumption|reflexivity]|].
+      intros q H. injection H as <-. reflexivity.
+Qed.
+
+Lemma inplace_rule st heap p newsize zero ans b :
+  wf st -> newsize < W64 -> answer_ok st newsize ans -> lookup st p = Some b ->
+  (snd (realloc_zero st heap p newsize zero ans) = Some p <->
+   newsize <= b_usable b /\ b_usable b / 2 <= newsize /\ 0 < newsize).
+Proof.
+  intros W Hn A Hb. pose proof (wf_live_nonnull _ _ _ W Hb) as Hp.
+  assert (Hl : p = NULL \/ lookup st p <> None) by (right; rewrite Hb; discriminate).
+  rewrite <- (usable_live _ _ _ Hb Hp). rewrite <- inplace_b_spec.
+  destruct (realloc_zero st heap p newsize zero ans) as [st' r] eqn:H. cbn [snd].
+  destruct (realloc_zero_spec _ _ _ _ _ _ _ _ W Hn A Hl H) as [(I & E & _)|[(I & E & _)|(I & q' & blk & E & M)]];
+    rewrite I, E.
+  - tauto.
+  - split; discriminate.
+  - destruct M as (Hne & _). split; [|discriminate]. intros C. injection C as C. contradiction.
+Qed.
+
+(* ---- aligned re-allocation ---- *)
+
+Lemma aligned_inplace_b_spec size newsize p k offset :
+  k <= 64 -> 
+  (realloc_aligned_inplace_b size newsize p (2 ^ k) offset = true <->
+   newsize <= size /\ size - size / 2 <= newsize /\ (p + offset) mod 2 ^ k = 0).
+Proof.
+  intros Hk. unfold realloc_aligned_inplace_b. rewrite !andb_true_iff, !N.leb_le, N.eqb_eq.
+  unfold wadd. rewrite wrap_mod, mod_W64_mod_pow2 by assumption. tauto.
+Qed.
+
+Lemma realloc_aligned_small st heap p newsize alignment offset zero o :
+  alignment <= MI_INTPTR_SIZE ->
+  realloc_zero_aligned_at st heap p newsize alignment offset zero o = realloc_zero st heap p newsize zero (o_ans o).
+Proof. intros H. unfold realloc_zero_aligned_at. apply N.leb_le in H. rewrite H. reflexivity. Qed.
+
+Lemma realloc_aligned_null st heap newsize alignment offset zero o :
+  MI_INTPTR_SIZE < alignment ->
+  realloc_zero_aligned_at st heap NULL newsize alignment offset zero o =
+  fst (heap_malloc_zero_aligned_at st heap newsize alignment offset zero o).
+Proof. intros H. unfold realloc_zero_aligned_at. apply N.leb_gt in H. rewrite H. reflexivity. Qed.
+
+Lemma realloc_aligned_spec st heap p newsize k offset zero o st' r b :
+  wf st -> 3 < k -> k < 64 -> newsize < W64 -> offset < W64 ->
+  oracles_ok st newsize (2 ^ k) offset o -> lookup st p = Some b ->
+  realloc_zero_aligned_at st heap p newsize (2 ^ k) offset zero o = (st', r) ->
+  let size := b_usable b in
+  let inplace := realloc_aligned_inplace_b size newsize p (2 ^ k) offset in
+  (inplace = true /\ r = Some p /\ st' = update st p (set_req newsize)) \/
+  (inplace = false /\ r = None /\ st' = st) \/
+  (inplace = false /\ exists q blk, r = Some q /\ moved st heap p size newsize zero false st' q blk /\
+                                    aligned_detail newsize offset (2 ^ k) zero o q blk).
+Proof.
+  intros W Hk3 Hk Hn Ho OK Hb H. cbv zeta. pose proof (wf_live_nonnull _ _ _ W Hb) as Hp.
+  unfold realloc_zero_aligned_at in H.
+  assert (F1 : (2 ^ k <=? MI_INTPTR_SIZE) = false).
+  { apply N.leb_gt. change MI_INTPTR_SIZE with (2 ^ 3). apply N.pow_lt_mono_r; lia. }
+  assert (F2 : (p =? NULL) = false) by (apply N.eqb_neq; assumption).
+  rewrite F1, F2 in H. rewrite (usable_live _ _ _ Hb Hp) in H.
+  destruct (realloc_aligned_inplace_b (b_usable b) newsize p (2 ^ k) offset) eqn:I.
+  - left. injection H as <- <-. repeat split; reflexivity.
+  - right.
+    destruct (heap_malloc_zero_aligned_at st heap newsize (2 ^ k) offset zero o) as [[st1 [newp|]] path] eqn:HA;
+      cbn [fst] in H; injection H as <- <-.
+    + right. split; [reflexivity|].
+      destruct (aligned_result _ _ _ _ _ _ _ _ _ _ W Hk Hn Ho OK HA) as (blk & R & D).
+      exists newp, blk. split; [reflexivity|]. split; [|exact D].
+      apply moved_intro; [right; rewrite Hb; discriminate|exact R].
+    + left. repeat split; reflexivity.
+Qed.
+
+Lemma realloc_aligned_keeps st heap p newsize k offset zero o st' q b :
+  wf st -> 3 < k -> k < 64 -> newsize < W64 -> offset < W64 ->
+  oracles_ok st newsize (2 ^ k) offset o -> lookup st p = Some b ->
+  realloc_zero_aligned_at st heap p newsize (2 ^ k) offset zero o = (st', Some q) ->
+  (q + offset) mod 2 ^ k = 0 /\
+  exists b', lookup st' q = Some b' /\ newsize <= b_usable b' /\
+    (forall i, i < N.min (b_usable b) newsize -> byte_at (b_bytes b') i = byte_at (b_bytes b) i) /\
+    (lookup st' p = None <-> q <> p) /\
+    (forall x, x <> p -> x <> q -> lookup st' x = lookup st x).
+Proof.
+  intros W Hk3 Hk Hn Ho OK Hb H. pose proof (wf_live_nonnull _ _ _ W Hb) as Hp.
+  destruct (realloc_aligned_spec _ _ _ _ _ _ _ _ _ _ _ W Hk3 Hk Hn Ho OK Hb H)
+    as [(I & E & ->)|[(I & E & _)|(I & q' & blk & E & M & D)]]; try discriminate.
+  - injection E as ->. apply aligned_inplace_b_spec in I as (I1 & I2 & I3); [|lia].
+    split; [exact I3|].
+    assert (L : lookup (update st p (set_req newsize)) p = Some (set_req newsize b)).
+    { rewrite lookup_set_req, N.eqb_refl, Hb. reflexivity. }
+    exists (set_req newsize b). split; [exact L|]. cbn [set_req b_usable b_bytes].
+    split; [assumption|]. split; [intros i _; reflexivity|].
+    split; [rewrite L; split; [discriminate|intros C; exfalso; apply C; reflexivity]|].
+    intros x Hx _. rewrite lookup_set_req.
+    assert (F : (p =? x) = false) by (apply N.eqb_neq; intros ->; apply Hx; reflexivity).
+    rewrite F. reflexivity.
+  - injection E as <-. destruct D as (D1 & _). split; [exact D1|].
+    pose proof (moved_lookup_new _ _ _ _ _ _ _ _ _ _ M) as L.
+    eexists. split; [exact L|]. cbn [set_bytes b_usable b_bytes].
+    pose proof M as (Hne & _ & Ok & Fit & _). destruct Ok as (Ok1 & _).
+    split; [assumption|].
+    split.
+    { intros i Hi. unfold bytes_of. rewrite Hb. apply byte_at_finish_prefix; [assumption|lia|assumption]. }
+    split; [split; [intros _; exact Hne|intros _; eapply moved_lookup_old; eassumption]|].
+    intros x H1 H2. eapply moved_lookup_other; eassumption.
+Qed.
+
+Lemma aligned_inplace_rule st heap p newsize k offset zero o b :
+  wf st -> 3 < k -> k < 64 -> newsize < W64 -> offset < W64 ->
+  oracles_ok st newsize (2 ^ k) offset o -> lookup st p = Some b ->
+  (snd (realloc_zero_aligned_at st heap p newsize (2 ^ k) offset zero o) = Some p <->
+   newsize <= b_usable b /\ b_usable b - b_usable b / 2 <= newsize /\ (p + offset) mod 2 ^ k = 0).
+Proof.
+  intros W Hk3 Hk Hn Ho OK Hb.
+  rewrite <- aligned_inplace_b_spec by lia.
+  destruct (realloc_zero_aligned_at st heap p newsize (2 ^ k) offset zero o) as [st' r] eqn:H. cbn [snd].
+  destruct (realloc_aligned_spec _ _ _ _ _ _ _ _ _ _ _ W Hk3 Hk Hn Ho OK Hb H)
+    as [(I & E & _)|[(I & E & _)|(I & q' & blk & E & M & _)]]; rewrite I, E.
+  - tauto.
+  - split; discriminate.
+  - destruct M as (Hne & _). split; [|discriminate]. intros C. injection C as C. contradiction.
+Qed.
+
+(* ------------------------------------------------------------------------------------- *)
+(* F. malformed and oversized requests (C06)                                                *)
+(* ------------------------------------------------------------------------------------- *)
+
+Lemma mul_overflow_spec c s : c < W64 -> s < W64 ->
+  (fst (mul_overflow c s) = true <-> W64 <= c * s) /\
+  (fst (mul_overflow c s) = false -> snd (mul_overflow c s) = c * s) /\
+  (fst (count_size_overflow c s) = true <-> W64 <= c * s) /\
+  (fst (count_size_overflow c s) = false -> snd (count_size_overflow c s) = c * s) /\
+  (fst (count_size_overflow c s) = true -> snd (count_size_overflow c s) = SIZE_MAX_) /\
+  (c = 1 -> count_size_overflow c s = (false, s)).
+Proof.
+  intros Hc Hs.
+  assert (M1 : fst (mul_overflow c s) = true <-> W64 <= c * s).
+  { unfold mul_overflow. cbn [fst]. apply N.leb_le. }
+  assert (M2 : fst (mul_overflow c s) = false -> snd (mul_overflow c s) = c * s).
+  { unfold mul_overflow. cbn [fst snd]. intros H. apply N.leb_gt in H. apply wrap_small. assumption. }
+  split; [exact M1|]. split; [exact M2|].
+  unfold count_size_overflow. destruct (c =? 1) eqn:E1.
+  - apply N.eqb_eq in E1. subst c. cbn [fst snd].
+    split; [split; [discriminate|lia]|]. split; [intros _; lia|]. split; [discriminate|reflexivity].
+  - apply N.eqb_neq in E1. destruct (mul_overflow c s) as [o t] eqn:EM. cbn [fst snd] in *.
+    destruct o; cbn [fst snd].
+    + split; [exact M1|]. split; [discriminate|]. split; [reflexivity|]. intros C; contradiction.
+    + split; [exact M1|]. split; [exact M2|]. split; [discriminate|]. intros C; contradiction.
+Qed.
+
+Lemma cso_no_overflow c s : c < W64 -> s < W64 -> c * s < W64 -> count_size_overflow c s = (false, c * s).
+Proof.
+  intros Hc Hs H. destruct (mul_overflow_spec c s Hc Hs) as (_ & _ & A & B & _).
+  destruct (count_size_overflow c s) as [o t]. cbn [fst snd] in *.
+  destruct o; [assert (X : W64 <= c * s) by (apply A; reflexivity); lia|]. rewrite (B eq_refl). reflexivity.
+Qed.
+
+Lemma cso_overflow c s : c < W64 -> s < W64 -> W64 <= c * s -> count_size_overflow c s = (true, SIZE_MAX_).
+Proof.
+  intros Hc Hs H. destruct (mul_overflow_spec c s Hc Hs) as (_ & _ & A & _ & B & _).
+  destruct (count_size_overflow c s) as [o t]. cbn [fst snd] in *.
+  destruct o; [rewrite (B eq_refl); reflexivity|]. apply A in H. discriminate.
+Qed.
+
+Lemma cso_total_lt c s : snd (count_size_overflow c s) < W64 \/ ~ (s < W64).
+Proof.
+  destruct (N.lt_ge_cases s W64) as [Hs|Hs]; [left|right; lia].
+  unfold count_size_overflow. destruct (c =? 1); [exact Hs|].
+  unfold mul_overflow. destruct (W64 <=? c * s); cbn [snd]; [reflexivity|apply wrap_lt].
+Qed.
+
+(* plain allocation *)
+Lemma heap_malloc_zero_oversize st heap size zero ans :
+  size < W64 -> MI_MAX_ALLOC_SIZE < size -> heap_malloc_zero st heap size zero ans = (st, None).
+Proof. intros H1 H2. unfold heap_malloc_zero. rewrite alloc_block_oversize by assumption. reflexivity. Qed.
+
+Lemma heap_malloc_zero_granted st heap size zero p u bytes :
+  size < W64 -> size <= MI_MAX_ALLOC_SIZE ->
+  exists st', heap_malloc_zero st heap size zero (Some (p, u, bytes)) = (st', Some p).
+Proof. intros H1 H2. unfold heap_malloc_zero. rewrite alloc_block_granted by assumption. eexists. reflexivity. Qed.
+
+Lemma realloc_zero_oversize st heap p newsize zero ans :
+  newsize < W64 -> MI_MAX_ALLOC_SIZE < newsize -> usable_size st p < newsize ->
+  realloc_zero st heap p newsize zero ans = (st, None).
+Proof.
+  intros H1 H2 H3. unfold realloc_zero.
+  assert (F : realloc_inplace_b (usable_size st p) newsize = false).
+  { unfold realloc_inplace_b. assert (G : (newsize <=? usable_size st p) = false) by (apply N.leb_gt; assumption).
+    rewrite G. reflexivity. }
+  rewrite F, heap_malloc_zero_oversize by assumption. reflexivity.
+Qed.
+
+Lemma realloc_zero_none_state st heap p newsize zero ans st' :
+  realloc_zero st heap p newsize zero ans = (st', None) -> st' = st.
+Proof.
+  intros H. destruct (realloc_fail_untouched st heap p newsize zero ans) as (F & _).
+  rewrite H in F. cbn [fst snd] in F. apply F. reflexivity.
+Qed.
+
+Lemma realloc_zero_granted st heap p newsize zero a u bytes :
+  newsize < W64 -> newsize <= MI_MAX_ALLOC_SIZE ->
+  exists st' q, realloc_zero st heap p newsize zero (Some (a, u, bytes)) = (st', Some q).
+Proof.
+  intros H1 H2. unfold realloc_zero. destruct (realloc_inplace_b _ _); [eexists; eexists; reflexivity|].
+  destruct (heap_malloc_zero_granted st heap newsize zero a u bytes H1 H2) as (st1 & E). rewrite E.
+  eexists; eexists; reflexivity.
+Qed.
+
+(* aligned allocation *)
+Lemma aligned_bad_alignment st heap size alignment offset zero o :
+  alignment = 0 \/ is_power_of_two alignment = false ->
+  heap_malloc_zero_aligned_at st heap size alignment offset zero o = (st, None, PathError).
+Proof.
+  intros H. unfold heap_malloc_zero_aligned_at.
+  assert (F : ((alignment =? 0) || negb (is_power_of_two alignment)) = true).
+  { destruct H as [->| ->]; [reflexivity|]. cbn [negb]. apply orb_true_r. }
+  rewrite F. reflexivity.
+Qed.
+
+Lemma aligned_oversize st heap size alignment offset zero o :
+  size < W64 -> MI_MAX_ALLOC_SIZE < size ->
+  heap_malloc_zero_aligned_at st heap size alignment offset zero o = (st, None, PathError).
+Proof.
+  intros H1 H2. unfold heap_malloc_zero_aligned_at.
+  destruct ((alignment =? 0) || negb (is_power_of_two alignment)); [reflexivity|].
+  assert (F : (size <=? MI_SMALL_SIZE_MAX) = false).
+  { apply N.leb_gt. unfold MI_SMALL_SIZE_MAX, MI_MAX_ALLOC_SIZE in *. lia. }
+  rewrite F. cbn [andb]. unfold malloc_zero_aligned_at_generic.
+  assert (G : (MI_MAX_ALLOC_SIZE - MI_PADDING_SIZE <? size) = true).
+  { apply N.ltb_lt. change MI_PADDING_SIZE with 0. lia. }
+  rewrite G. reflexivity.
+Qed.
+
+Lemma huge_alignment_offset st heap size k offset zero o :
+  k < 64 -> size < W64 -> MI_BLOCK_ALIGNMENT_MAX < 2 ^ k -> offset <> 0 ->
+  heap_malloc_zero_aligned_at st heap size (2 ^ k) offset zero o = (st, None, PathError).
+Proof.
+  intros Hk Hs Hh Ho. unfold heap_malloc_zero_aligned_at. rewrite pow2_checks by assumption.
+  assert (F : ((size <=? MI_SMALL_SIZE_MAX) && (2 ^ k <=? size)) = false).
+  { destruct (size <=? MI_SMALL_SIZE_MAX) eqn:E1; [|reflexivity]. apply N.leb_le in E1.
+    cbn [andb]. apply N.leb_gt. unfold MI_SMALL_SIZE_MAX, MI_BLOCK_ALIGNMENT_MAX in *. lia. }
+  rewrite F. unfold malloc_zero_aligned_at_generic.
+  destruct (MI_MAX_ALLOC_SIZE - MI_PADDING_SIZE <? size); [reflexivity|].
+  assert (G : (offset =? 0) = false) by (apply N.eqb_neq; assumption). rewrite G. cbn [andb].
+  unfold malloc_zero_aligned_at_overalloc.
+  assert (G2 : (MI_BLOCK_ALIGNMENT_MAX <? 2 ^ k) = true) by (apply N.ltb_lt; assumption).
+  rewrite G2, G. reflexivity.
+Qed.
+
+Lemma overalloc_none_state st heap size a off zero ans st' path :
+  malloc_zero_aligned_at_overalloc st heap size a off zero ans = (st', None, path) -> st' = st.
+Proof.
+  unfold malloc_zero_aligned_at_overalloc. destruct (MI_BLOCK_ALIGNMENT_MAX <? a).
+  - destruct (negb (off =? 0)); [intros H; injection H as <-; reflexivity|].
+    destruct (alloc_block _ _ _ _) as [[[p u] b]|]; [discriminate|]. intros H; injection H as <-; reflexivity.
+  - destruct (alloc_block _ _ _ _) as [[[p u] b]|]; [discriminate|]. intros H; injection H as <-; reflexivity.
+Qed.
+
+(* an alignment that passes the check is a power of two below 2^64 *)
+Lemma alignment_check_pow2 a : a < W64 -> ((a =? 0) || negb (is_power_of_two a)) = false ->
+  exists k, k < 64 /\ a = 2 ^ k.
+Proof.
+  intros Ha H. apply orb_false_elim in H as (H1 & H2). apply N.eqb_neq in H1.
+  apply negb_false_iff in H2. unfold is_power_of_two in H2.
+  apply land_pred_pow2_dec; [lia|assumption|assumption].
+Qed.
+
+Lemma aligned_none_state st heap size a off zero o st' path :
+  wf st -> oracles_ok st size a off o ->
+  heap_malloc_zero_aligned_at st heap size a off zero o = (st', None, path) -> st_eq st' st.
+Proof.
+  intros W OK H. unfold heap_malloc_zero_aligned_at in H.
+  destruct ((a =? 0) || negb (is_power_of_two a)); [injection H as <-; intros x; reflexivity|].
+  change (if (size <=? MI_SMALL_SIZE_MAX) && (a <=? size)
+          then match o_page_free o with
+               | Some f => N.land (wadd f off) (wsub a 1) =? 0
+               | None => false end else false) with (fast_path_b size a off o) in H.
+  unfold oracles_ok in OK.
+  destruct (fast_path_b size a off o).
+  - destruct (page_malloc_zero zero (o_ans o)) as [[[p u] b]|]; [discriminate|].
+    injection H as <-. intros x; reflexivity.
+  - unfold malloc_zero_aligned_at_generic in H.
+    destruct (MI_MAX_ALLOC_SIZE - MI_PADDING_SIZE <? size); [injection H as <-; intros x; reflexivity|].
+    destruct ((off =? 0) && malloc_is_naturally_aligned size a).
+    + destruct OK as (A & _).
+      destruct (heap_malloc_zero st heap size zero (o_ans o)) as [st1 [p|]] eqn:HM.
+      * destruct (N.land p (wsub a 1) =? 0); [discriminate|].
+        apply overalloc_none_state in H. subst st'.
+        destruct (malloc_result _ _ _ _ _ _ _ W A HM) as (blk & -> & R & _).
+        destruct R as (_ & Fr & Ok & _). apply free_add_fresh; [assumption|].
+        destruct Ok as (_ & _ & _ & _ & _ & Ok). unfold NULL. lia.
+      * apply heap_malloc_zero_none in HM. injection H as <-. subst st1. intros x; reflexivity.
+    + apply overalloc_none_state in H. subst st'. intros x; reflexivity.
+Qed.
+
+(* ---- the effect of a pointer-returning call on the abstract state ---- *)
+Definition ptr_outcome (st : state) (heap p n : N) (zero : bool) (st' : state) (r : option N) : Prop :=
+  match r with
+  | None => st_eq st' st
+  | Some q =>
+      (q = p /\ p <> NULL /\ exists b, lookup st p = Some b /\ n <= b_usable b /\ st' = update st p (set_req n)) \/
+      (exists fbr blk, (p = NULL \/ lookup st p <> None) /\ moved st heap p (usable_size st p) n zero fbr st' q blk) \/
+      (p = NULL /\ exists blk, alloc_result st heap n zero q blk st')
+  end.
+
+Lemma st_eq_refl st : st_eq st st.
+Proof. intros x; reflexivity. Qed.
+
+Lemma malloc_outcome st heap size zero ans st' r :
+  wf st -> answer_ok st size ans -> heap_malloc_zero st heap size zero ans = (st', r) ->
+  ptr_outcome st heap NULL size zero st' r.
+Proof.
+  intros W A H. destruct r as [q|]; cbn [ptr_outcome].
+  - right; right. split; [reflexivity|].
+    destruct (malloc_result _ _ _ _ _ _ _ W A H) as (blk & _ & R & _). exists blk. exact R.
+  - apply heap_malloc_zero_none in H. subst st'. apply st_eq_refl.
+Qed.
+
+Lemma realloc_outcome st heap p n zero ans st' r :
+  wf st -> n < W64 -> answer_ok st n ans -> (p = NULL \/ lookup st p <> None) ->
+  realloc_zero st heap p n zero ans = (st', r) -> ptr_outcome st heap p n zero st' r.
+Proof.
+  intros W Hn A Hl H.
+  destruct (realloc_zero_spec _ _ _ _ _ _ _ _ W Hn A Hl H) as [(I & -> & ->)|[(I & -> & -> & _)|(I & q & blk & -> & M)]];
+    cbn [ptr_outcome].
+  - left. apply inplace_b_spec in I.
+    assert (Hp : p <> NULL) by (intros ->; unfold usable_size in I; rewrite N.eqb_refl in I; lia).
+    destruct Hl as [Hl|Hl]; [contradiction|]. destruct (lookup st p) as [b|] eqn:Hb; [|contradiction].
+    rewrite (usable_live _ _ _ Hb Hp) in I. split; [reflexivity|]. split; [assumption|].
+    exists b. repeat split; try reflexivity. lia.
+  - apply st_eq_refl.
+  - right; left. exists true, blk. split; assumption.
+Qed.
+
+Lemma aligned_some_result st heap size a off zero o st' q path :
+  wf st -> size < W64 -> a < W64 -> off < W64 -> oracles_ok st size a off o ->
+  heap_malloc_zero_aligned_at st heap size a off zero o = (st', Some q, path) ->
+  exists blk, alloc_result st heap size zero q blk st'.
+Proof.
+  intros W Hs Ha Ho OK H.
+  destruct ((a =? 0) || negb (is_power_of_two a)) eqn:Chk.
+  - unfold heap_malloc_zero_aligned_at in H. rewrite Chk in H. discriminate.
+  - destruct (alignment_check_pow2 a Ha Chk) as (k & Hk & ->).
+    destruct (aligned_result _ _ _ _ _ _ _ _ _ _ W Hk Hs Ho OK H) as (blk & R & _).
+    exists blk. exact R.
+Qed.
+
+Lemma aligned_outcome st heap size a off zero o st' r path :
+  wf st -> size < W64 -> a < W64 -> off < W64 -> oracles_ok st size a off o ->
+  heap_malloc_zero_aligned_at st heap size a off zero o = (st', r, path) ->
+  ptr_outcome st heap NULL size zero st' r.
+Proof.
+  intros W Hs Ha Ho OK H. destruct r as [q|]; cbn [ptr_outcome].
+  - right; right. split; [reflexivity|]. exact (aligned_some_result _ _ _ _ _ _ _ _ _ _ W Hs Ha Ho OK H).
+  - eapply aligned_none_state; eassumption.
+Qed.
+
+Lemma realloc_aligned_outcome st heap p n a off zero o st' r :
+  wf st -> n < W64 -> a < W64 -> off < W64 -> (p = NULL \/ lookup st p <> None) ->
+  (if a <=? MI_INTPTR_SIZE then answer_ok st n (o_ans o) else oracles_ok st n a off o) ->
+  realloc_zero_aligned_at st heap p n a off zero o = (st', r) -> ptr_outcome st heap p n zero st' r.
+Proof.
+  intros W Hn Ha Ho Hl OK H. unfold realloc_zero_aligned_at in H.
+  destruct (a <=? MI_INTPTR_SIZE); [exact (realloc_outcome _ _ _ _ _ _ _ _ W Hn OK Hl H)|].
+  destruct (p =? NULL) eqn:Ep.
+  - apply N.eqb_eq in Ep. subst p.
+    destruct (heap_malloc_zero_aligned_at st heap n a off zero o) as [[st1 r1] path] eqn:HA.
+    cbn [fst] in H. injection H as <- <-. exact (aligned_outcome _ _ _ _ _ _ _ _ _ _ W Hn Ha Ho OK HA).
+  - apply N.eqb_neq in Ep. destruct Hl as [Hl|Hl]; [contradiction|].
+    destruct (lookup st p) as [b|] eqn:Hb; [|contradiction].
+    rewrite (usable_live _ _ _ Hb Ep) in H.
+    destruct (realloc_aligned_inplace_b (b_usable b) n p a off) eqn:I.
+    + injection H as <- <-. cbn [ptr_outcome]. left. split; [reflexivity|]. split; [assumption|].
+      exists b. unfold realloc_aligned_inplace_b in I. apply andb_prop in I as (I & _).
+      apply andb_prop in I as (I & _). apply N.leb_le in I. repeat split; try reflexivity; assumption.
+    + destruct (heap_malloc_zero_aligned_at st heap n a off zero o) as [[st1 [newp|]] path] eqn:HA;
+        cbn [fst] in H; injection H as <- <-; cbn [ptr_outcome]; [|apply st_eq_refl].
+      destruct (aligned_some_result _ _ _ _ _ _ _ _ _ _ W Hn Ha Ho OK HA) as (blk & R).
+      right; left. exists false, blk. split; [right; rewrite Hb; discriminate|].
+        rewrite (usable_live _ _ _ Hb Ep). apply moved_intro; [right; rewrite Hb; discriminate|exact R].
+Qed.
+
+(* ------------------------------------------------------------------------------------- *)
+(* G. every entry point (exec)                                                              *)
+(* ------------------------------------------------------------------------------------- *)
+
+Definition total (c s : N) : N := snd (count_size_overflow c s).
+Definition overflows (c s : N) : bool := fst (count_size_overflow c s).
+
+Definition call_heap (c : call) : N :=
+  match c with
+  | CMalloc h _ | CZalloc h _ | CCalloc h _ _ | CMallocn h _ _ | CRealloc h _ _ | CReallocn h _ _ _
+  | CReallocf h _ _ | CRezalloc h _ _ | CRecalloc h _ _ _ | CMallocAlignedAt h _ _ _ | CZallocAlignedAt h _ _ _
+  | CCallocAlignedAt h _ _ _ _ | CReallocAlignedAt h _ _ _ _ | CRezallocAlignedAt h _ _ _ _
+  | CRecallocAlignedAt h _ _ _ _ _ | CReallocAligned h _ _ _ | CRezallocAligned h _ _ _ => h
+  | _ => 0
+  end.
+
+Definition call_ptr (c : call) : N :=
+  match c with
+  | CRealloc _ p _ | CReallocn _ p _ _ | CReallocf _ p _ | CRezalloc _ p _ | CRecalloc _ p _ _
+  | CExpand p _ | CReallocAlignedAt _ p _ _ _ | CRezallocAlignedAt _ p _ _ _ | CRecallocAlignedAt _ p _ _ _ _
+  | CReallocAligned _ p _ _ | CRezallocAligned _ p _ _ | CReallocarray p _ _ | CReallocarr _ p _ _
+  | CFree p | CWrite p _ _ => p
+  | _ => NULL
+  end.
+
+Definition call_size (c : call) : N :=
+  match c with
+  | CMalloc _ s | CZalloc _ s | CRealloc _ _ s | CReallocf _ _ s | CRezalloc _ _ s | CExpand _ s
+  | CMallocAlignedAt _ s _ _ | CZallocAlignedAt _ s _ _ | CReallocAlignedAt _ _ s _ _ | CRezallocAlignedAt _ _ s _ _
+  | CReallocAligned _ _ s _ | CRezallocAligned _ _ s _ | CPosixMemalign _ _ s | CMemalign _ s | CValloc s
+  | CAlignedAlloc _ s => s
+  | CCalloc _ c s | CMallocn _ c s | CReallocn _ _ c s | CRecalloc _ _ c s | CCallocAlignedAt _ c s _ _
+  | CRecallocAlignedAt _ _ c s _ _ | CReallocarray _ c s | CReallocarr _ _ c s => total c s
+  | CPvalloc s => align_up s os_page_size_default
+  | CFree _ | CWrite _ _ _ => 0
+  end.
+
+Definition call_overflows (c : call) : bool :=
+  match c with
+  | CCalloc _ c s | CMallocn _ c s | CReallocn _ _ c s | CRecalloc _ _ c s | CCallocAlignedAt _ c s _ _
+  | CRecallocAlignedAt _ _ c s _ _ | CReallocarray _ c s | CReallocarr _ _ c s => overflows c s
+  | _ => false
+  end.
+
+Definition call_zero (c : call) : bool :=
+  match c with
+  | CZalloc _ _ | CCalloc _ _ _ | CRezalloc _ _ _ | CRecalloc _ _ _ _ | CZallocAlignedAt _ _ _ _
+  | CCallocAlignedAt _ _ _ _ _ | CRezallocAlignedAt _ _ _ _ _ | CRecallocAlignedAt _ _ _ _ _ _
+  | CRezallocAligned _ _ _ _ => true
+  | _ => false
+  end.
+
+(* (alignment, offset) of the aligned entry points *)
+Definition call_alignment (c : call) : option (N * N) :=
+  match c with
+  | CMallocAlignedAt _ _ a off | CZallocAlignedAt _ _ a off | CCallocAlignedAt _ _ _ a off
+  | CReallocAlignedAt _ _ _ a off | CRezallocAlignedAt _ _ _ a off | CRecallocAlignedAt _ _ _ _ a off => Some (a, off)
+  | CReallocAligned _ p _ a | CRezallocAligned _ p _ a => Some (a, p mod a)
+  | CPosixMemalign _ a _ | CMemalign a _ | CAlignedAlloc a _ => Some (a, 0)
+  | CValloc _ | CPvalloc _ => Some (os_page_size_default, 0)
+  | _ => None
+  end.
+
+Definition is_realloc_aligned (c : call) : bool :=
+  match c with
+  | CReallocAlignedAt _ _ _ _ _ | CRezallocAlignedAt _ _ _ _ _ | CRecallocAlignedAt _ _ _ _ _ _
+  | CReallocAligned _ _ _ _ | CRezallocAligned _ _ _ _ => true
+  | _ => false
+  end.
+
+(* all numeric arguments are 64-bit values *)
+Definition args_ok (c : call) : Prop :=
+  match c with
+  | CMalloc _ s | CZalloc _ s | CValloc s | CPvalloc s => s < W64
+  | CCalloc _ c s | CMallocn _ c s => c < W64 /\ s < W64
+  | CRealloc _ p n | CReallocf _ p n | CRezalloc _ p n | CExpand p n => p < W64 /\ n < W64
+  | CReallocn _ p c s | CRecalloc _ p c s | CReallocarray p c s | CReallocarr _ p c s => p < W64 /\ c < W64 /\ s < W64
+  | CMallocAlignedAt _ s a off | CZallocAlignedAt _ s a off => s < W64 /\ a < W64 /\ off < W64
+  | CCallocAlignedAt _ c s a off => c < W64 /\ s < W64 /\ a < W64 /\ off < W64
+  | CReallocAlignedAt _ p n a off | CRezallocAlignedAt _ p n a off => p < W64 /\ n < W64 /\ a < W64 /\ off < W64
+  | CRecallocAlignedAt _ p c s a off => p < W64 /\ c < W64 /\ s < W64 /\ a < W64 /\ off < W64
+  | CReallocAligned _ p n a | CRezallocAligned _ p n a => p < W64 /\ n < W64 /\ a < W64
+  | CPosixMemalign _ a s | CMemalign a s | CAlignedAlloc a s => a < W64 /\ s < W64
+  | CFree p => p < W64
+  | CWrite p off v => p < W64 /\ off < W64
+  end.
+
+(* pointer arguments are NULL or live *)
+Definition call_ptr_ok (st : state) (c : call) : Prop := call_ptr c = NULL \/ lookup st (call_ptr c) <> None.
+
+(* the layer contract of the oracle answers consulted by the call *)
+Definition call_ok (st : state) (c : call) (o : oracles) : Prop :=
+  if call_overflows c then True
+  else match call_alignment c with
+       | None => answer_ok st (call_size c) (o_ans o)
+       | Some (a, off) =>
+           if is_realloc_aligned c && (a <=? MI_INTPTR_SIZE) then answer_ok st (call_size c) (o_ans o)
+           else oracles_ok st (call_size c) a off o
+       end.
+
+Definition special_call (c : call) : bool :=
+  match c with CFree _ | CWrite _ _ _ | CExpand _ _ => true | _ => false end.
+
+Lemma total_lt c s : s < W64 -> total c s < W64.
+Proof. intros H. destruct (cso_total_lt c s) as [L|L]; [exact L|contradiction]. Qed.
+
+Lemma cso_split c s : count_size_overflow c s = (overflows c s, total c s).
+Proof. unfold overflows, total. destruct (count_size_overflow c s); reflexivity. Qed.
+
+Lemma ptr_outcome_none st heap p n zero : ptr_outcome st heap p n zero st None.
+Proof. apply st_eq_refl. Qed.
+
+Lemma mod_lt_W64 p a : p < W64 -> p mod a < W64.
+Proof.
+  intros H. destruct (N.eq_dec a 0) as [->|Ha].
+  - destruct p; cbn; [rewrite W64_val; lia|assumption].
+  - pose proof (N.mod_le p a Ha). lia.
+Qed.
+
+Lemma exec_outcome st c o st' r :
+  wf st -> args_ok c -> call_ptr_ok st c -> call_ok st c o -> exec st c o = (st', r) ->
+  if special_call c then
+    match c with
+    | CFree p => st' = free st p
+    | CWrite p off v => st' = write st p off v
+    | _ => st' = st
+    end
+  else
+    (call_failed c r = true -> r_ptr r = None) /\
+    ((exists h p n, c = CReallocf h p n /\ r_ptr r = None /\ st' = free st p) \/
+     ptr_outcome st (call_heap c) (call_ptr c) (call_size c) (call_zero c) st' (r_ptr r)).
+Proof.
+  intros W AO PO OK H. unfold call_ptr_ok in PO. unfold call_ok in OK.
+  assert (Fail : forall (x : option N), match x with None => true | Some _ => false end = true -> x = None).
+  { intros [q|]; [discriminate|reflexivity]. }
+  assert (Z0 : 0 < W64) by (rewrite W64_val; lia).
+  assert (ZP : os_page_size_default < W64) by (rewrite W64_val; unfold os_page_size_default; lia).
+  destruct c; cbn [special_call call_failed call_heap call_ptr call_size call_zero call_overflows
+                   call_alignment is_realloc_aligned args_ok andb] in *;
+    unfold exec in H; cbv beta iota zeta in H.
+  - (* malloc *) destruct (heap_malloc _ _ _ _) as [s1 r1] eqn:E. injection H as <- <-. cbn [fst snd res_ptr r_ptr].
+    split; [apply Fail|right]. eapply malloc_outcome; eassumption.
+  - (* zalloc *) destruct (heap_zalloc _ _ _ _) as [s1 r1] eqn:E. injection H as <- <-. cbn [fst snd res_ptr r_ptr].
+    split; [apply Fail|right]. eapply malloc_outcome; eassumption.
+  - (* calloc *) destruct (heap_calloc _ _ _ _ _) as [s1 r1] eqn:E. injection H as <- <-. cbn [fst snd res_ptr r_ptr].
+    split; [apply Fail|right]. unfold heap_calloc in E. rewrite cso_split in E.
+    destruct (overflows count size); [injection E as <- <-; apply ptr_outcome_none|].
+    eapply malloc_outcome; eassumption.
+  - (* mallocn *) destruct (heap_mallocn _ _ _ _ _) as [s1 r1] eqn:E. injection H as <- <-. cbn [fst snd res_ptr r_ptr].
+    split; [apply Fail|right]. unfold heap_mallocn in E. rewrite cso_split in E.
+    destruct (overflows count size); [injection E as <- <-; apply ptr_outcome_none|].
+    eapply malloc_outcome; eassumption.
+  - (* realloc *) destruct (heap_realloc _ _ _ _ _) as [s1 r1] eqn:E. injection H as <- <-. cbn [fst snd res_ptr r_ptr].
+    split; [apply Fail|right]. destruct AO as (_ & AO). exact (realloc_outcome _ _ _ _ _ _ _ _ W AO OK PO E).
+  - (* reallocn *) destruct (heap_reallocn _ _ _ _ _ _) as [s1 r1] eqn:E. injection H as <- <-. cbn [fst snd res_ptr r_ptr].
+    split; [apply Fail|right]. unfold heap_reallocn in E. rewrite cso_split in E. destruct AO as (_ & _ & AO).
+    destruct (overflows count size); [injection E as <- <-; apply ptr_outcome_none|].
+    exact (realloc_outcome _ _ _ _ _ _ _ _ W (total_lt _ _ AO) OK PO E).
+  - (* reallocf *) destruct (heap_reallocf _ _ _ _ _) as [s1 r1] eqn:E. injection H as <- <-. cbn [fst snd res_ptr r_ptr].
+    split; [apply Fail|]. destruct AO as (_ & AO). destruct r1 as [q|].
+    + right. apply reallocf_frees_on_fail in E. exact (realloc_outcome _ _ _ _ _ _ _ _ W AO OK PO E).
+    + left. exists heap, p, newsize. split; [reflexivity|]. split; [reflexivity|].
+      apply reallocf_frees_on_fail in E. exact E.
+  - (* rezalloc *) destruct (heap_rezalloc _ _ _ _ _) as [s1 r1] eqn:E. injection H as <- <-. cbn [fst snd res_ptr r_ptr].
+    split; [apply Fail|right]. destruct AO as (_ & AO). exact (realloc_outcome _ _ _ _ _ _ _ _ W AO OK PO E).
+  - (* recalloc *) destruct (heap_recalloc _ _ _ _ _ _) as [s1 r1] eqn:E. injection H as <- <-. cbn [fst snd res_ptr r_ptr].
+    split; [apply Fail|right]. unfold heap_recalloc in E. rewrite cso_split in E. destruct AO as (_ & _ & AO).
+    destruct (overflows count size); [injection E as <- <-; apply ptr_outcome_none|].
+    exact (realloc_outcome _ _ _ _ _ _ _ _ W (total_lt _ _ AO) OK PO E).
+  - (* expand *) injection H as <- _. reflexivity.
+  - (* malloc_aligned_at *)
+    destruct (heap_malloc_zero_aligned_at _ _ _ _ _ _ _) as [[s1 r1] path] eqn:E. injection H as <- <-. cbn [fst snd res_ptr r_ptr].
+    split; [apply Fail|right]. destruct AO as (A1 & A2 & A3). exact (aligned_outcome _ _ _ _ _ _ _ _ _ _ W A1 A2 A3 OK E).
+  - (* zalloc_aligned_at *)
+    destruct (heap_malloc_zero_aligned_at _ _ _ _ _ _ _) as [[s1 r1] path] eqn:E. injection H as <- <-. cbn [fst snd res_ptr r_ptr].
+    split; [apply Fail|right]. destruct AO as (A1 & A2 & A3). exact (aligned_outcome _ _ _ _ _ _ _ _ _ _ W A1 A2 A3 OK E).
+  - (* calloc_aligned_at *)
+    destruct (heap_calloc_aligned_at _ _ _ _ _ _ _) as [[s1 r1] path] eqn:E. injection H as <- <-. cbn [fst snd res_ptr r_ptr].
+    split; [apply Fail|right]. unfold heap_calloc_aligned_at in E. rewrite cso_split in E. destruct AO as (_ & A1 & A2 & A3).
+    destruct (overflows count size); [injection E as <- <- _; apply ptr_outcome_none|].
+    exact (aligned_outcome _ _ _ _ _ _ _ _ _ _ W (total_lt _ _ A1) A2 A3 OK E).
+  - (* realloc_aligned_at *)
+    destruct (realloc_zero_aligned_at _ _ _ _ _ _ _ _) as [s1 r1] eqn:E. injection H as <- <-. cbn [fst snd res_ptr r_ptr].
+    split; [apply Fail|right]. destruct AO as (_ & A1 & A2 & A3).
+    exact (realloc_aligned_outcome _ _ _ _ _ _ _ _ _ _ W A1 A2 A3 PO OK E).
+  - (* rezalloc_aligned_at *)
+    destruct (realloc_zero_aligned_at _ _ _ _ _ _ _ _) as [s1 r1] eqn:E. injection H as <- <-. cbn [fst snd res_ptr r_ptr].
+    split; [apply Fail|right]. destruct AO as (_ & A1 & A2 & A3).
+    exact (realloc_aligned_outcome _ _ _ _ _ _ _ _ _ _ W A1 A2 A3 PO OK E).
+  - (* recalloc_aligned_at *)
+    destruct (heap_recalloc_aligned_at _ _ _ _ _ _ _ _) as [s1 r1] eqn:E. injection H as <- <-. cbn [fst snd res_ptr r_ptr].
+    split; [apply Fail|right]. unfold heap_recalloc_aligned_at in E. rewrite cso_split in E.
+    destruct AO as (_ & _ & A1 & A2 & A3).
+    destruct (overflows count size); [injection E as <- <-; apply ptr_outcome_none|].
+    exact (realloc_aligned_outcome _ _ _ _ _ _ _ _ _ _ W (total_lt _ _ A1) A2 A3 PO OK E).
+  - (* realloc_aligned *)
+    destruct (realloc_zero_aligned _ _ _ _ _ _ _) as [s1 r1] eqn:E. injection H as <- <-. cbn [fst snd res_ptr r_ptr].
+    split; [apply Fail|right]. destruct AO as (A0 & A1 & A2). unfold realloc_zero_aligned in E.
+    destruct (alignment <=? MI_INTPTR_SIZE) eqn:Ea.
+    + exact (realloc_outcome _ _ _ _ _ _ _ _ W A1 OK PO E).
+    + assert (OK' : if alignment <=? MI_INTPTR_SIZE then answer_ok st newsize (o_ans o)
+                    else oracles_ok st newsize alignment (p mod alignment) o) by (rewrite Ea; exact OK).
+      exact (realloc_aligned_outcome _ _ _ _ _ _ _ _ _ _ W A1 A2 (mod_lt_W64 _ _ A0) PO OK' E).
+  - (* rezalloc_aligned *)
+    destruct (realloc_zero_aligned _ _ _ _ _ _ _) as [s1 r1] eqn:E. injection H as <- <-. cbn [fst snd res_ptr r_ptr].
+    split; [apply Fail|right]. destruct AO as (A0 & A1 & A2). unfold realloc_zero_aligned in E.
+    destruct (alignment <=? MI_INTPTR_SIZE) eqn:Ea.
+    + exact (realloc_outcome _ _ _ _ _ _ _ _ W A1 OK PO E).
+    + assert (OK' : if alignment <=? MI_INTPTR_SIZE then answer_ok st newsize (o_ans o)
+                    else oracles_ok st newsize alignment (p mod alignment) o) by (rewrite Ea; exact OK).
+      exact (realloc_aligned_outcome _ _ _ _ _ _ _ _ _ _ W A1 A2 (mod_lt_W64 _ _ A0) PO OK' E).
+  - (* posix_memalign *)
+    destruct (posix_memalign _ _ _ _ _) as [[s1 rc] out] eqn:E. injection H as <- <-. cbn [r_ptr r_rc].
+    unfold posix_memalign in E. destruct AO as (A1 & A2).
+    assert (Z : (0 <? W64) = true) by reflexivity.
+    destruct p_null; [injection E as <- <- <-; split; [reflexivity|right; apply ptr_outcome_none]|].
+    destruct (negb (alignment mod MI_INTPTR_SIZE =? 0)); [injection E as <- <- <-; split; [reflexivity|right; apply ptr_outcome_none]|].
+    destruct ((alignment =? 0) || negb (is_power_of_two alignment)); [injection E as <- <- <-; split; [reflexivity|right; apply ptr_outcome_none]|].
+    unfold malloc_aligned in E.
+    destruct (heap_malloc_zero_aligned_at st 0 size alignment 0 false o) as [[s2 r2] path] eqn:EA. cbn [fst] in E.
+    pose proof (aligned_outcome _ _ _ _ _ _ _ _ _ _ W A2 A1 Z0 OK EA) as P.
+    destruct r2 as [q|].
+    + injection E as <- <- <-. split; [discriminate|right; exact P].
+    + destruct (negb (size =? 0)); injection E as <- <- <-; (split; [reflexivity|right; exact P]).
+  - (* memalign *)
+    unfold memalign, malloc_aligned in H.
+    destruct (heap_malloc_zero_aligned_at _ _ _ _ _ _ _) as [[s1 r1] path] eqn:E. injection H as <- <-. cbn [fst snd res_ptr r_ptr].
+    split; [apply Fail|right]. destruct AO as (A1 & A2).
+    exact (aligned_outcome _ _ _ _ _ _ _ _ _ _ W A2 A1 Z0 OK E).
+  - (* valloc *)
+    unfold valloc, memalign, malloc_aligned in H.
+    destruct (heap_malloc_zero_aligned_at _ _ _ _ _ _ _) as [[s1 r1] path] eqn:E. injection H as <- <-. cbn [fst snd res_ptr r_ptr].
+    split; [apply Fail|right].
+    exact (aligned_outcome _ _ _ _ _ _ _ _ _ _ W AO ZP Z0 OK E).
+  - (* pvalloc *)
+    unfold pvalloc in H. destruct (SIZE_MAX_ - os_page_size_default <=? size) eqn:Ov.
+    + injection H as <- <-. cbn [fst snd res_ptr r_ptr]. split; [reflexivity|right; apply ptr_outcome_none].
+    + unfold malloc_aligned in H.
+      destruct (heap_malloc_zero_aligned_at _ _ _ _ _ _ _) as [[s1 r1] path] eqn:E. injection H as <- <-. cbn [fst snd res_ptr r_ptr].
+      split; [apply Fail|right]. apply N.leb_gt in Ov.
+      assert (AL : align_up size os_page_size_default < W64).
+      { pose proof (align_up_props size os_page_size_default) as P. unfold os_page_size_default, SIZE_MAX_ in *.
+        rewrite W64_val in *. destruct P as (_ & P & _); lia. }
+      exact (aligned_outcome _ _ _ _ _ _ _ _ _ _ W AL ZP Z0 OK E).
+  - (* aligned_alloc *)
+    unfold aligned_alloc, malloc_aligned in H.
+    destruct (heap_malloc_zero_aligned_at _ _ _ _ _ _ _) as [[s1 r1] path] eqn:E. injection H as <- <-. cbn [fst snd res_ptr r_ptr].
+    split; [apply Fail|right]. destruct AO as (A1 & A2).
+    exact (aligned_outcome _ _ _ _ _ _ _ _ _ _ W A2 A1 Z0 OK E).
+  - (* reallocarray *)
+    destruct (reallocarray _ _ _ _ _) as [[s1 r1] e] eqn:E. injection H as <- <-. cbn [r_ptr].
+    split; [apply Fail|right]. unfold reallocarray in E.
+    destruct (heap_reallocn st 0 p count size (o_ans o)) as [s2 r2] eqn:E2.
+    assert (P : ptr_outcome st 0 p (total count size) false s2 r2).
+    { unfold heap_reallocn in E2. rewrite cso_split in E2. destruct AO as (_ & _ & AO).
+      destruct (overflows count size); [injection E2 as <- <-; apply ptr_outcome_none|].
+      exact (realloc_outcome _ _ _ _ _ _ _ _ W (total_lt _ _ AO) OK PO E2). }
+    destruct r2; injection E as <- <- _; exact P.
+  - (* reallocarr *)
+    destruct (reallocarr _ _ _ _ _ _) as [[[s1 rc] op'] e] eqn:E. injection H as <- <-. cbn [r_ptr r_rc].
+    unfold reallocarr in E.
+    destruct p_null; [injection E as <- <- <- <-; split; [reflexivity|right; apply ptr_outcome_none]|].
+    unfold reallocarray in E.
+    destruct (heap_reallocn st 0 op count size (o_ans o)) as [s2 r2] eqn:E2.
+    assert (P : ptr_outcome st 0 op (total count size) false s2 r2).
+    { unfold heap_reallocn in E2. rewrite cso_split in E2. destruct AO as (_ & _ & AO).
+      destruct (overflows count size); [injection E2 as <- <-; apply ptr_outcome_none|].
+      exact (realloc_outcome _ _ _ _ _ _ _ _ W (total_lt _ _ AO) OK PO E2). }
+    destruct r2 as [q|]; injection E as <- <- <- <-.
+    + cbn [N.eqb]. split; [discriminate|right; exact P].
+    + change (ENOMEM_ =? 0) with false. cbv iota. split; [reflexivity|right; exact P].
+  - (* free *) injection H as <- _. reflexivity.
+  - (* write *) injection H as <- _. reflexivity.
+Qed.
+
+(* ---- consequences: representation invariant, frame, failing calls ---- *)
+
+Lemma wf_free st p : wf st -> wf (free st p).
+Proof.
+  intros W x b. rewrite lookup_free. destruct (negb (p =? NULL) && (p =? x)); [discriminate|apply W].
+Qed.
+
+Lemma wf_update st p f :
+  wf st -> (forall b, lookup st p = Some b -> block_ok p b -> block_ok p (f b)) -> wf (update st p f).
+Proof.
+  intros W Hf x b. rewrite lookup_update. destruct (p =? x) eqn:E; [|apply W].
+  apply N.eqb_eq in E. subst x. destruct (lookup st p) as [b0|] eqn:Hb; [|discriminate].
+  cbn [option_map]. intros H. injection H as <-. apply Hf; [reflexivity|]. apply W. exact Hb.
+Qed.
+
+Lemma wf_write st p off v : wf st -> wf (write st p off v).
+Proof.
+  intros W. unfold write. destruct (lookup st p) as [b|] eqn:Hb; [|exact W].
+  destruct (write_allowed b off); [|exact W].
+  apply wf_update; [exact W|]. intros b0 _ Ok. unfold block_ok in *.
+  cbn [set_bytes b_usable b_bytes b_req b_adjust]. rewrite blen_set_byte. exact Ok.
+Qed.
+
+Lemma ptr_outcome_wf st heap p n zero st' r : wf st -> ptr_outcome st heap p n zero st' r -> wf st'.
+Proof.
+  intros W P. destruct r as [q|]; cbn [ptr_outcome] in P.
+  - destruct P as [(_ & Hp & b & Hb & Hn & ->)|[(fbr & blk & _ & M)|(_ & blk & R)]].
+    + apply wf_update; [exact W|]. intros b0 Hb0 Ok. rewrite Hb in Hb0. injection Hb0 as <-.
+      unfold block_ok in *. cbn [set_req b_usable b_bytes b_req b_adjust]. repeat split; try apply Ok. exact Hn.
+    + eapply moved_wf; eassumption.
+    + eapply alloc_result_wf; eassumption.
+  - eapply wf_st_eq; [|exact W]. intros x. symmetry. apply P.
+Qed.
+
+Lemma exec_wf st c o st' r :
+  wf st -> args_ok c -> call_ptr_ok st c -> call_ok st c o -> exec st c o = (st', r) -> wf st'.
+Proof.
+  intros W AO PO OK H. pose proof (exec_outcome _ _ _ _ _ W AO PO OK H) as X.
+  destruct (special_call c) eqn:S.
+  - destruct c; try discriminate; subst st'; [exact W|apply wf_free; exact W|apply wf_write; exact W].
+  - destruct X as (_ & [(h & p & n & _ & _ & ->)|P]); [apply wf_free; exact W|].
+    eapply ptr_outcome_wf; eassumption.
+Qed.
+
+(* frame: a pointer-returning call changes at most the entry of its argument and of its result *)
+Lemma ptr_outcome_frame st heap p n zero st' r x :
+  ptr_outcome st heap p n zero st' r -> x <> p -> r <> Some x -> lookup st' x = lookup st x.
+Proof.
+  intros P H1 H2. destruct r as [q|]; cbn [ptr_outcome] in P; [|apply P].
+  assert (Hq : x <> q) by (intros ->; apply H2; reflexivity).
+  destruct P as [(_ & Hp & b & Hb & Hn & ->)|[(fbr & blk & _ & M)|(_ & blk & R)]].
+  - rewrite lookup_set_req. assert (F : (p =? x) = false) by (apply N.eqb_neq; intros ->; apply H1; reflexivity).
+    rewrite F. reflexivity.
+  - eapply moved_lookup_other; eassumption.
+  - destruct R as (E & _). rewrite E, lookup_add.
+    assert (F : (q =? x) = false) by (apply N.eqb_neq; intros ->; apply Hq; reflexivity). rewrite F. reflexivity.
+Qed.
+
+(* C06: a failing call leaves every live block and its contents unchanged (mi_reallocf: frees p) *)
+Lemma failed_call_state_unchanged st c o st' r :
+  wf st -> args_ok c -> call_ptr_ok st c -> call_ok st c o -> exec st c o = (st', r) ->
+  call_failed c r = true ->
+  match c with
+  | CReallocf _ p _ => st' = free st p
+  | _ => st_eq st' st
+  end.
+Proof.
+  intros W AO PO OK H F. pose proof (exec_outcome _ _ _ _ _ W AO PO OK H) as X.
+  destruct (special_call c) eqn:S.
+  - destruct c; try discriminate; subst st'. apply st_eq_refl.
+  - destruct X as (Fp & X). specialize (Fp F). rewrite Fp in X. cbn [ptr_outcome] in X.
+    destruct X as [(h & p & n & -> & _ & ->)|X]; [reflexivity|].
+    destruct c; try exact X; try discriminate.
+    (* reallocf that failed: the general description says "unchanged"; it is also `free st p` *)
+    unfold exec in H. cbv beta iota zeta in H.
+    destruct (heap_reallocf st heap p newsize (o_ans o)) as [s1 r1] eqn:E. injection H as <- <-.
+    cbn [res_ptr r_ptr] in Fp. subst r1. apply reallocf_frees_on_fail in E. exact E.
+Qed.
+
+(* ------------------------------------------------------------------------------------- *)
+(* H. zero-initialisation (C04)                                                             *)
+(* ------------------------------------------------------------------------------------- *)
+
+(* the invariant behind the growth guarantee: the slack of a zero-family block is zero *)
+Definition zinv (st : state) : Prop :=
+  forall q b, lookup st q = Some b -> b_zero b = true -> forall i, b_req b <= i -> byte_at (b_bytes b) i = 0.
+
+Lemma zinv_nil : zinv [].
+Proof. intros q b H. discriminate. Qed.
+
+Lemma zinv_st_eq s1 s2 : st_eq s1 s2 -> zinv s1 -> zinv s2.
+Proof. intros E Z q b H Hz i Hi. eapply Z; [|exact Hz|exact Hi]. rewrite E. exact H. Qed.
+
+Lemma byte_at_set_byte_other off v l i : i <> off -> byte_at (set_byte off v l) i = byte_at l i.
+Proof.
+  intros H. destruct (N.lt_ge_cases i (blen l)) as [Hl|Hl].
+  - rewrite byte_at_set_byte by assumption. assert (F : (i =? off) = false) by (apply N.eqb_neq; assumption).
+    rewrite F. reflexivity.
+  - rewrite !byte_at_out; [reflexivity|assumption|rewrite blen_set_byte; assumption].
+Qed.
+
+Lemma zinv_free st p : zinv st -> zinv (free st p).
+Proof.
+  intros Z x b. rewrite lookup_free. destruct (negb (p =? NULL) && (p =? x)); [discriminate|apply Z].
+Qed.
+
+Lemma zinv_write st p off v : zinv st -> zinv (write st p off v).
+Proof.
+  intros Z. unfold write. destruct (lookup st p) as [b|] eqn:Hb; [|exact Z].
+  destruct (write_allowed b off) eqn:Wa; [|exact Z].
+  intros x b'. rewrite lookup_update. destruct (p =? x) eqn:E; [|apply Z].
+  apply N.eqb_eq in E. subst x. rewrite Hb. cbn [option_map]. intros H. injection H as <-.
+  cbn [set_bytes b_zero b_req b_bytes]. intros Hz i Hi.
+  unfold write_allowed in Wa. rewrite Hz in Wa. apply N.ltb_lt in Wa.
+  rewrite byte_at_set_byte_other by lia. eapply Z; eassumption.
+Qed.
+
+Lemma ptr_outcome_zinv st heap p n zero st' r : zinv st -> ptr_outcome st heap p n zero st' r -> zinv st'.
+Proof.
+  intros Z P. destruct r as [q|]; cbn [ptr_outcome] in P.
+  - destruct P as [(_ & Hp & b & Hb & Hn & ->)|[(fbr & blk & _ & M)|(_ & blk & R)]].
+    + intros x b'. rewrite lookup_set_req. destruct (p =? x) eqn:E; [|apply Z].
+      apply N.eqb_eq in E. subst x. rewrite Hb. cbn [option_map]. intros H. injection H as <-.
+      cbn [set_req b_zero b_req b_bytes]. intros Hz i Hi. apply andb_prop in Hz as (Hz1 & Hz2).
+      apply N.leb_le in Hz2. eapply Z; [exact Hb|exact Hz1|lia].
+    + destruct M as (Hne & Fr & Ok & Fit & Rq & Rz & Rh & Zb & L).
+      intros x b'. rewrite L. destruct (negb (p =? NULL) && (p =? x)); [discriminate|].
+      destruct (q =? x); [|apply Z]. intros H. injection H as <-.
+      cbn [set_bytes b_zero b_req b_bytes]. intros Hz i Hi. rewrite Rz in Hz. rewrite Rq in Hi.
+      apply byte_at_finish_zero; [apply Zb; assumption|]. intros _ C. lia.
+    + destruct R as (E & Fr & Ok & Fit & Rq & Rz & Rh & Zb).
+      intros x b'. rewrite E, lookup_add. destruct (q =? x); [|apply Z]. intros H. injection H as <-.
+      intros Hz i _. rewrite Rz in Hz. apply Zb. assumption.
+  - eapply zinv_st_eq; [|exact Z]. intros x. symmetry. apply P.
+Qed.
+
+(* zero_family_inv: every operation preserves the invariant *)
+Lemma exec_zinv st c o st' r :
+  wf st -> zinv st -> args_ok c -> call_ptr_ok st c -> call_ok st c o -> exec st c o = (st', r) -> zinv st'.
+Proof.
+  intros W Z AO PO OK H. pose proof (exec_outcome _ _ _ _ _ W AO PO OK H) as X.
+  destruct (special_call c) eqn:S.
+  - destruct c; try discriminate; subst st'; [exact Z|apply zinv_free; exact Z|apply zinv_write; exact Z].
+  - destruct X as (_ & [(h & p & n & _ & _ & ->)|P]); [apply zinv_free; exact Z|].
+    eapply ptr_outcome_zinv; eassumption.
+Qed.
+
+(* zalloc_zero: a zeroing allocation (any entry point, p = NULL) returns a block that is zero over
+   its whole usable size, whatever bytes the lower layers handed out *)
+Lemma zalloc_zero st c o st' r q :
+  wf st -> args_ok c -> call_ok st c o -> call_zero c = true -> call_ptr c = NULL ->
+  exec st c o = (st', r) -> r_ptr r = Some q ->
+  exists b, lookup st' q = Some b /\ b_req b = call_size c /\ call_size c <= b_usable b /\
+            b_zero b = true /\ blen (b_bytes b) = b_usable b /\ forall i, byte_at (b_bytes b) i = 0.
+Proof.
+  intros W AO OK Hz Hp H Hr.
+  assert (PO : call_ptr_ok st c) by (left; exact Hp).
+  pose proof (exec_outcome _ _ _ _ _ W AO PO OK H) as X.
+  destruct (special_call c) eqn:S; [destruct c; discriminate|].
+  destruct X as (_ & [(h & p & n & -> & _)|P]); [discriminate|].
+  rewrite Hr, Hp, Hz in P. cbn [ptr_outcome] in P.
+  destruct P as [(_ & C & _)|[(fbr & blk & _ & M)|(_ & blk & R)]]; [contradiction| |].
+  - pose proof (moved_lookup_new _ _ _ _ _ _ _ _ _ _ M) as L.
+    destruct M as (Hne & Fr & Ok & Fit & Rq & Rz & Rh & Zb & _).
+    eexists. split; [exact L|]. cbn [set_bytes b_req b_usable b_zero b_bytes]. rewrite blen_finish_bytes.
+    destruct Ok as (Ok1 & _). repeat split; try assumption.
+    intros i. apply byte_at_finish_zero; [apply Zb; reflexivity|]. intros C; exfalso; apply C; reflexivity.
+  - destruct R as (E & Fr & Ok & Fit & Rq & Rz & Rh & Zb).
+    exists blk. rewrite E, lookup_add, N.eqb_refl. destruct Ok as (Ok1 & _).
+    repeat split; try assumption. apply Zb. reflexivity.
+Qed.
+
+(* monotone growth chains of a zero-initialised block *)
+Inductive zchain : state -> N -> N -> Prop :=
+| zc_start st c o st' r p :
+    wf st -> zinv st -> args_ok c -> call_ok st c o -> call_zero c = true -> call_ptr c = NULL ->
+    exec st c o = (st', r) -> r_ptr r = Some p -> zchain st' p (call_size c)
+| zc_write st p n off v :
+    zchain st p n -> zchain (write st p off v) p n
+| zc_other st p n c o st' r :
+    zchain st p n -> args_ok c -> call_ptr_ok st c -> call_ok st c o -> call_ptr c <> p ->
+    exec st c o = (st', r) -> zchain st' p n
+| zc_grow st p n c o st' r p' :
+    zchain st p n -> args_ok c -> call_ok st c o -> call_zero c = true -> call_ptr c = p ->
+    n <= call_size c -> exec st c o = (st', r) -> r_ptr r = Some p' -> zchain st' p' (call_size c).
+
+Definition zlive (st : state) (p n : N) : Prop :=
+  wf st /\ zinv st /\ exists b, lookup st p = Some b /\ b_zero b = true /\ b_req b = n.
+
+Lemma ptr_outcome_result st heap p n zero st' q :
+  ptr_outcome st heap p n zero st' (Some q) -> q = p \/ lookup st q = None.
+Proof.
+  cbn [ptr_outcome]. intros [(E & _)|[(fbr & blk & _ & M)|(_ & blk & R)]]; [left; exact E| |].
+  - right. apply M.
+  - right. apply R.
+Qed.
+
+(* one growth step from a live zero-family block *)
+Lemma grow_step st p n c o st' r p' :
+  zlive st p n -> args_ok c -> call_ok st c o -> call_zero c = true -> call_ptr c = p ->
+  n <= call_size c -> exec st c o = (st', r) -> r_ptr r = Some p' ->
+  zlive st' p' (call_size c) /\
+  exists b', lookup st' p' = Some b' /\ forall i, n <= i -> byte_at (b_bytes b') i = 0.
+Proof.
+  intros (W & Z & b & Hb & Hz & Hr) AO OK Cz Cp Hn H Hres.
+  assert (PO : call_ptr_ok st c) by (right; rewrite Cp, Hb; discriminate).
+  pose proof (exec_wf _ _ _ _ _ W AO PO OK H) as W'.
+  pose proof (exec_zinv _ _ _ _ _ W Z AO PO OK H) as Z'.
+  pose proof (exec_outcome _ _ _ _ _ W AO PO OK H) as X.
+  pose proof (wf_live_nonnull _ _ _ W Hb) as Hpn.
+  destruct (special_call c) eqn:S; [destruct c; discriminate|].
+  destruct X as (_ & [(h & p0 & n0 & -> & _)|P]); [discriminate|].
+  rewrite Hres, Cp, Cz in P. cbn [ptr_outcome] in P.
+  destruct P as [(-> & _ & b0 & Hb0 & Hfit & ->)|[(fbr & blk & _ & M)|(C & _)]]; [| |contradiction].
+  - (* in place *)
+    rewrite Hb in Hb0. injection Hb0 as <-.
+    assert (L : lookup (update st p (set_req (call_size c))) p = Some (set_req (call_size c) b)).
+    { rewrite lookup_set_req, N.eqb_refl, Hb. reflexivity. }
+    assert (Fz : b_zero (set_req (call_size c) b) = true).
+    { cbn [set_req b_zero]. rewrite Hz, Hr. apply N.leb_le in Hn. rewrite Hn. reflexivity. }
+    split.
+    + split; [exact W'|]. split; [exact Z'|]. eexists. split; [exact L|]. split; [exact Fz|reflexivity].
+    + eexists. split; [exact L|]. intros i Hi. cbn [set_req b_bytes]. eapply Z; [exact Hb|exact Hz|lia].
+  - (* moved *)
+    pose proof (moved_lookup_new _ _ _ _ _ _ _ _ _ _ M) as L.
+    destruct M as (Hne & Fr & Ok & Fit & Rq & Rz & Rh & Zb & _).
+    split.
+    + split; [exact W'|]. split; [exact Z'|]. eexists. split; [exact L|].
+      cbn [set_bytes b_zero b_req]. split; assumption.
+    + eexists. split; [exact L|]. intros i Hi. cbn [set_bytes b_bytes].
+      apply byte_at_finish_zero; [apply Zb; reflexivity|]. intros _ _.
+      unfold bytes_of. rewrite Hb. eapply Z; [exact Hb|exact Hz|lia].
+Qed.
+
+Lemma zchain_live st p n : zchain st p n -> zlive st p n.
+Proof.
+  induction 1 as [st c o st' r p W Z AO OK Cz Cp H Hr
+                 |st p n off v _ IH
+                 |st p n c o st' r _ IH AO PO OK Cp H
+                 |st p n c o st' r p' _ IH AO OK Cz Cp Hn H Hr].
+  - assert (PO : call_ptr_ok st c) by (left; exact Cp).
+    split; [eapply exec_wf; eassumption|]. split; [eapply exec_zinv; eassumption|].
+    destruct (zalloc_zero _ _ _ _ _ _ W AO OK Cz Cp H Hr) as (b & L & Rq & _ & Rz & _).
+    exists b. repeat split; assumption.
+  - destruct IH as (W & Z & b & Hb & Hz & Hr).
+    split; [apply wf_write; exact W|]. split; [apply zinv_write; exact Z|].
+    unfold write. rewrite Hb. destruct (write_allowed b off); [|exists b; repeat split; assumption].
+    rewrite lookup_update, N.eqb_refl, Hb. cbn [option_map]. eexists. split; [reflexivity|].
+    cbn [set_bytes b_zero b_req]. split; assumption.
+  - destruct IH as (W & Z & b & Hb & Hz & Hr).
+    split; [eapply exec_wf; eassumption|]. split; [eapply exec_zinv; eassumption|].
+    exists b. split; [|split; assumption]. rewrite <- Hb.
+    pose proof (exec_outcome _ _ _ _ _ W AO PO OK H) as X.
+    assert (Cp' : p <> call_ptr c) by (intros E; apply Cp; symmetry; exact E).
+    destruct (special_call c) eqn:S.
+    + destruct c; try discriminate; subst st'; cbn [call_ptr] in Cp, Cp'.
+      * reflexivity.
+      * rewrite lookup_free. assert (F : (p0 =? p) = false) by (apply N.eqb_neq; assumption).
+        rewrite F, andb_false_r. reflexivity.
+      * unfold write. destruct (lookup st p0) as [b0|]; [|reflexivity].
+        destruct (write_allowed b0 off); [|reflexivity]. rewrite lookup_update.
+        assert (F : (p0 =? p) = false) by (apply N.eqb_neq; assumption). rewrite F. reflexivity.
+    + destruct X as (_ & [(h & p0 & n0 & -> & _ & ->)|P]).
+      * cbn [call_ptr] in Cp. rewrite lookup_free.
+        assert (F : (p0 =? p) = false) by (apply N.eqb_neq; assumption). rewrite F, andb_false_r. reflexivity.
+      * eapply ptr_outcome_frame; [exact P|exact Cp'|].
+        intros E. rewrite E in P. apply ptr_outcome_result in P as [P|P]; [apply Cp; symmetry; exact P|].
+        rewrite Hb in P. discriminate.
+  - eapply grow_step; eassumption.
+Qed.
+
+(* rezalloc_chain_zero: after every growth step of a chain, in place or moved, every byte from the
+   previous requested size on (in particular up to the new requested size) is zero *)
+Lemma rezalloc_chain_zero st p n c o st' r p' :
+  zchain st p n -> args_ok c -> call_ok st c o -> call_zero c = true -> call_ptr c = p ->
+  n <= call_size c -> exec st c o = (st', r) -> r_ptr r = Some p' ->
+  exists b', lookup st' p' = Some b' /\ b_req b' = call_size c /\ call_size c <= b_usable b' /\
+             forall i, n <= i -> byte_at (b_bytes b') i = 0.
+Proof.
+  intros Ch AO OK Cz Cp Hn H Hr. apply zchain_live in Ch.
+  destruct (grow_step _ _ _ _ _ _ _ _ Ch AO OK Cz Cp Hn H Hr) as ((W' & _ & b1 & L1 & _ & Rq) & b' & L & Zb).
+  exists b'. split; [exact L|]. rewrite L in L1. injection L1 as <-.
+  split; [exact Rq|]. split; [|exact Zb]. destruct (W' _ _ L) as (_ & _ & Ok & _). lia.
+Qed.
+
+(* ------------------------------------------------------------------------------------- *)
+(* I. C06 at the level of every entry point                                                 *)
+(* ------------------------------------------------------------------------------------- *)
+
+Lemma realloc_aligned_oversize st heap p n a off zero o :
+  n < W64 -> MI_MAX_ALLOC_SIZE < n -> usable_size st p < n ->
+  realloc_zero_aligned_at st heap p n a off zero o = (st, None).
+Proof.
+  intros H1 H2 H3. unfold realloc_zero_aligned_at.
+  destruct (a <=? MI_INTPTR_SIZE); [apply realloc_zero_oversize; assumption|].
+  rewrite aligned_oversize by assumption. cbn [fst].
+  destruct (p =? NULL); [reflexivity|].
+  assert (F : realloc_aligned_inplace_b (usable_size st p) n p a off = false).
+  { unfold realloc_aligned_inplace_b. assert (G : (n <=? usable_size st p) = false) by (apply N.leb_gt; assumption).
+    rewrite G. reflexivity. }
+  rewrite F. reflexivity.
+Qed.
+
+Lemma MAX_lt_SIZE_MAX : MI_MAX_ALLOC_SIZE < SIZE_MAX_. Proof. reflexivity. Qed.
+Lemma SIZE_MAX_lt_W64 : SIZE_MAX_ < W64. Proof. reflexivity. Qed.
+
+(* oversize_fails: a request above MI_MAX_ALLOC_SIZE that is not already satisfied by the block itself
+   fails, for every entry point; nothing changes (mi_reallocf frees p) *)
+Lemma oversize_fails st c o st' r :
+  args_ok c -> special_call c = false -> MI_MAX_ALLOC_SIZE < call_size c ->
+  usable_size st (call_ptr c) < call_size c -> exec st c o = (st', r) ->
+  call_failed c r = true /\ match c with CReallocf _ p _ => st' = free st p | _ => st' = st end.
+Proof.
+  intros AO S Hm Hu H.
+  assert (CS : forall cnt s, s < W64 -> total cnt s < W64) by (intros; apply total_lt; assumption).
+  destruct c; try discriminate;
+    cbn [call_failed call_ptr call_size args_ok] in *; unfold exec in H; cbv beta iota zeta in H.
+  - unfold heap_malloc in H. rewrite heap_malloc_zero_oversize in H by assumption. injection H as <- <-. split; reflexivity.
+  - unfold heap_zalloc in H. rewrite heap_malloc_zero_oversize in H by assumption. injection H as <- <-. split; reflexivity.
+  - unfold heap_calloc in H. rewrite cso_split in H. destruct AO as (_ & AO).
+    destruct (overflows count size); [injection H as <- <-; split; reflexivity|].
+    unfold heap_zalloc in H. rewrite heap_malloc_zero_oversize in H by auto. injection H as <- <-. split; reflexivity.
+  - unfold heap_mallocn in H. rewrite cso_split in H. destruct AO as (_ & AO).
+    destruct (overflows count size); [injection H as <- <-; split; reflexivity|].
+    unfold heap_malloc in H. rewrite heap_malloc_zero_oversize in H by auto. injection H as <- <-. split; reflexivity.
+  - unfold heap_realloc in H. destruct AO as (_ & AO). rewrite realloc_zero_oversize in H by assumption.
+    injection H as <- <-. split; reflexivity.
+  - unfold heap_reallocn in H. rewrite cso_split in H. destruct AO as (_ & _ & AO).
+    destruct (overflows count size); [injection H as <- <-; split; reflexivity|].
+    unfold heap_realloc in H. rewrite realloc_zero_oversize in H by auto. injection H as <- <-. split; reflexivity.
+  - unfold heap_reallocf, heap_realloc in H. destruct AO as (_ & AO). rewrite realloc_zero_oversize in H by assumption.
+    unfold free in *. destruct (p =? NULL); cbn [negb] in H; injection H as <- <-; split; reflexivity.
+  - unfold heap_rezalloc in H. destruct AO as (_ & AO). rewrite realloc_zero_oversize in H by assumption.
+    injection H as <- <-. split; reflexivity.
+  - unfold heap_recalloc in H. rewrite cso_split in H. destruct AO as (_ & _ & AO).
+    destruct (overflows count size); [injection H as <- <-; split; reflexivity|].
+    unfold heap_rezalloc in H. rewrite realloc_zero_oversize in H by auto. injection H as <- <-. split; reflexivity.
+  - destruct AO as (AO & _). rewrite aligned_oversize in H by assumption. injection H as <- <-. split; reflexivity.
+  - destruct AO as (AO & _). rewrite aligned_oversize in H by assumption. injection H as <- <-. split; reflexivity.
+  - unfold heap_calloc_aligned_at in H. rewrite cso_split in H. destruct AO as (_ & AO & _).
+    destruct (overflows count size); [injection H as <- <-; split; reflexivity|].
+    rewrite aligned_oversize in H by auto. injection H as <- <-. split; reflexivity.
+  - destruct AO as (_ & AO & _). rewrite realloc_aligned_oversize in H by assumption. injection H as <- <-. split; reflexivity.
+  - destruct AO as (_ & AO & _). rewrite realloc_aligned_oversize in H by assumption. injection H as <- <-. split; reflexivity.
+  - unfold heap_recalloc_aligned_at in H. rewrite cso_split in H. destruct AO as (_ & _ & AO & _).
+    destruct (overflows count size); [injection H as <- <-; split; reflexivity|].
+    rewrite realloc_aligned_oversize in H by auto. injection H as <- <-. split; reflexivity.
+  - unfold realloc_zero_aligned in H. destruct AO as (_ & AO & _).
+    destruct (alignment <=? MI_INTPTR_SIZE);
+      [rewrite realloc_zero_oversize in H by assumption|rewrite realloc_aligned_oversize in H by assumption];
+      injection H as <- <-; split; reflexivity.
+  - unfold realloc_zero_aligned in H. destruct AO as (_ & AO & _).
+    destruct (alignment <=? MI_INTPTR_SIZE);
+      [rewrite realloc_zero_oversize in H by assumption|rewrite realloc_aligned_oversize in H by assumption];
+      injection H as <- <-; split; reflexivity.
+  - unfold posix_memalign in H. destruct AO as (_ & AO).
+    destruct p_null; [injection H as <- <-; split; reflexivity|].
+    destruct (negb (alignment mod MI_INTPTR_SIZE =? 0)); [injection H as <- <-; split; reflexivity|].
+    destruct ((alignment =? 0) || negb (is_power_of_two alignment)); [injection H as <- <-; split; reflexivity|].
+    unfold malloc_aligned in H. rewrite aligned_oversize in H by assumption. cbn [fst] in H.
+    assert (F : (size =? 0) = false) by (apply N.eqb_neq; unfold MI_MAX_ALLOC_SIZE in Hm; lia).
+    rewrite F in H. cbn [negb] in H. injection H as <- <-. split; reflexivity.
+  - unfold memalign, malloc_aligned in H. destruct AO as (_ & AO). rewrite aligned_oversize in H by assumption.
+    injection H as <- <-. split; reflexivity.
+  - unfold valloc, memalign, malloc_aligned in H. rewrite aligned_oversize in H by assumption.
+    injection H as <- <-. split; reflexivity.
+  - unfold pvalloc in H. destruct (SIZE_MAX_ - os_page_size_default <=? size) eqn:Ov;
+      [injection H as <- <-; split; reflexivity|].
+    apply N.leb_gt in Ov.
+    assert (AL : align_up size os_page_size_default < W64).
+    { pose proof (align_up_props size os_page_size_default) as P. unfold os_page_size_default, SIZE_MAX_ in *.
+      rewrite W64_val in *. destruct P as (_ & P & _); lia. }
+    unfold malloc_aligned in H. rewrite aligned_oversize in H by assumption. injection H as <- <-. split; reflexivity.
+  - unfold aligned_alloc, malloc_aligned in H. destruct AO as (_ & AO). rewrite aligned_oversize in H by assumption.
+    injection H as <- <-. split; reflexivity.
+  - unfold reallocarray, heap_reallocn in H. rewrite cso_split in H. destruct AO as (_ & _ & AO).
+    destruct (overflows count size); [injection H as <- <-; split; reflexivity|].
+    unfold heap_realloc in H. rewrite realloc_zero_oversize in H by auto. injection H as <- <-. split; reflexivity.
+  - unfold reallocarr in H. destruct p_null; [injection H as <- <-; split; reflexivity|].
+    unfold reallocarray, heap_reallocn in H. rewrite cso_split in H. destruct AO as (_ & _ & AO).
+    destruct (overflows count size); [injection H as <- <-; split; reflexivity|].
+    unfold heap_realloc in H. rewrite realloc_zero_oversize in H by auto. injection H as <- <-. split; reflexivity.
+Qed.
+
+(* calloc_overflow_fails: count * size >= 2^64 *)
+Lemma calloc_overflow_fails st c o st' r :
+  call_overflows c = true -> exec st c o = (st', r) -> call_failed c r = true /\ st' = st.
+Proof.
+  intros Ov H.
+  destruct c; try discriminate; cbn [call_overflows call_failed] in *; unfold exec in H; cbv beta iota zeta in H.
+  - unfold heap_calloc in H. rewrite cso_split, Ov in H. injection H as <- <-. split; reflexivity.
+  - unfold heap_mallocn in H. rewrite cso_split, Ov in H. injection H as <- <-. split; reflexivity.
+  - unfold heap_reallocn in H. rewrite cso_split, Ov in H. injection H as <- <-. split; reflexivity.
+  - unfold heap_recalloc in H. rewrite cso_split, Ov in H. injection H as <- <-. split; reflexivity.
+  - unfold heap_calloc_aligned_at in H. rewrite cso_split, Ov in H. injection H as <- <-. split; reflexivity.
+  - unfold heap_recalloc_aligned_at in H. rewrite cso_split, Ov in H. injection H as <- <-. split; reflexivity.
+  - unfold reallocarray, heap_reallocn in H. rewrite cso_split, Ov in H. injection H as <- <-. split; reflexivity.
+  - unfold reallocarr in H. destruct p_null; [injection H as <- <-; split; reflexivity|].
+    unfold reallocarray, heap_reallocn in H. rewrite cso_split, Ov in H. injection H as <- <-. split; reflexivity.
+Qed.
+
+Lemma overflows_iff c s : c < W64 -> s < W64 -> (overflows c s = true <-> W64 <= c * s).
+Proof. intros Hc Hs. unfold overflows. apply (mul_overflow_spec c s Hc Hs). Qed.
+
+(* bad_alignment_fails *)
+Lemma page_size_pow2 : (os_page_size_default =? 0) || negb (is_power_of_two os_page_size_default) = false.
+Proof. vm_compute. reflexivity. Qed.
+
+Lemma bad_alignment_fails st c o st' r a off :
+  call_alignment c = Some (a, off) -> is_realloc_aligned c = false ->
+  a = 0 \/ is_power_of_two a = false -> exec st c o = (st', r) -> call_failed c r = true /\ st' = st.
+Proof.
+  intros CA NR Bad H.
+  assert (Chk : ((a =? 0) || negb (is_power_of_two a)) = true).
+  { destruct Bad as [->| ->]; [reflexivity|]. cbn [negb]. apply orb_true_r. }
+  destruct c; try discriminate; cbn [call_alignment call_failed] in *; injection CA as E1 E2; subst;
+    unfold exec in H; cbv beta iota zeta in H.
+  - rewrite aligned_bad_alignment in H by assumption. injection H as <- <-. split; reflexivity.
+  - rewrite aligned_bad_alignment in H by assumption. injection H as <- <-. split; reflexivity.
+  - unfold heap_calloc_aligned_at in H. rewrite cso_split in H.
+    destruct (overflows count size); [injection H as <- <-; split; reflexivity|].
+    rewrite aligned_bad_alignment in H by assumption. injection H as <- <-. split; reflexivity.
+  - unfold posix_memalign in H. destruct p_null; [injection H as <- <-; split; reflexivity|].
+    destruct (negb (a mod MI_INTPTR_SIZE =? 0)); [injection H as <- <-; split; reflexivity|].
+    rewrite Chk in H. injection H as <- <-. split; reflexivity.
+  - unfold memalign, malloc_aligned in H. rewrite aligned_bad_alignment in H by assumption.
+    injection H as <- <-. split; reflexivity.
+  - rewrite page_size_pow2 in Chk. discriminate.
+  - rewrite page_size_pow2 in Chk. discriminate.
+  - unfold aligned_alloc, malloc_aligned in H. rewrite aligned_bad_alignment in H by assumption.
+    injection H as <- <-. split; reflexivity.
+Qed.
+
+(* aligned re-allocation of NULL with a bad alignment above the word size fails as well *)
+Lemma realloc_aligned_bad_alignment_null st heap n a off zero o :
+  MI_INTPTR_SIZE < a -> is_power_of_two a = false ->
+  realloc_zero_aligned_at st heap NULL n a off zero o = (st, None).
+Proof.
+  intros Ha Bad. rewrite realloc_aligned_null by assumption. rewrite aligned_bad_alignment by (right; assumption).
+  reflexivity.
+Qed.
+
+(* posix_memalign_codes *)
+Lemma posix_memalign_codes st p_null a s o :
+  let '(st', rc, out) := posix_memalign st p_null a s o in
+  (rc = EINVAL_ <-> p_null = true \/ a mod MI_INTPTR_SIZE <> 0 \/ a = 0 \/ is_power_of_two a = false) /\
+  (rc = ENOMEM_ <-> p_null = false /\ a mod MI_INTPTR_SIZE = 0 /\ a <> 0 /\ is_power_of_two a = true /\
+                    snd (malloc_aligned st s a o) = None /\ s <> 0) /\
+  (rc = 0 \/ rc = EINVAL_ \/ rc = ENOMEM_) /\
+  (out <> None <-> rc = 0) /\
+  (forall q, out = Some (Some q) -> snd (malloc_aligned st s a o) = Some q) /\
+  (rc = EINVAL_ -> st' = st).
+Proof.
+  unfold posix_memalign.
+  assert (E1 : EINVAL_ <> 0) by discriminate. assert (E2 : ENOMEM_ <> 0) by discriminate.
+  assert (E3 : EINVAL_ <> ENOMEM_) by discriminate.
+  assert (E4 : forall x : option N, Some x <> None) by (intros; discriminate).
+  destruct p_null.
+  { intuition (try congruence). }
+  destruct (a mod MI_INTPTR_SIZE =? 0) eqn:Em; cbn [negb].
+  2:{ apply N.eqb_neq in Em. intuition (try congruence). }
+  apply N.eqb_eq in Em.
+  destruct ((a =? 0) || negb (is_power_of_two a)) eqn:Chk.
+  { apply orb_prop in Chk.
+    assert (Bad : a = 0 \/ is_power_of_two a = false).
+    { destruct Chk as [C|C]; [left; apply N.eqb_eq; exact C|right; apply negb_true_iff; exact C]. }
+    intuition (try congruence). }
+  apply orb_false_elim in Chk as (C1 & C2). apply N.eqb_neq in C1. apply negb_false_iff in C2.
+  destruct (malloc_aligned st s a o) as [st1 [q|]] eqn:EM; cbn [snd].
+  - intuition (try congruence).
+  - destruct (s =? 0) eqn:Es; cbn [negb].
+    + apply N.eqb_eq in Es. intuition (try congruence).
+    + apply N.eqb_neq in Es. intuition (try congruence).
+Qed.
+
+Lemma pvalloc_overflow st size o :
+  SIZE_MAX_ - os_page_size_default <= size -> pvalloc st size o = (st, None).
+Proof. intros H. unfold pvalloc. apply N.leb_le in H. rewrite H. reflexivity. Qed.
+
+Lemma pvalloc_rounds st size o :
+  size < SIZE_MAX_ - os_page_size_default ->
+  pvalloc st size o = malloc_aligned st (align_up size os_page_size_default) os_page_size_default o /\
+  size <= align_up size os_page_size_default /\ align_up size os_page_size_default mod os_page_size_default = 0.
+Proof.
+  intros H. unfold pvalloc. assert (F : (SIZE_MAX_ - os_page_size_default <=? size) = false) by (apply N.leb_gt; assumption).
+  rewrite F. split; [reflexivity|].
+  pose proof (align_up_props size os_page_size_default) as P. unfold os_page_size_default, SIZE_MAX_ in *.
+  pose proof W64_val as Hw. destruct P as (P1 & _ & P3); [lia|lia|lia|split; assumption].
+Qed.
+
+Lemma reallocarray_errno st p c s ans :
+  let '(st', r, e) := reallocarray st p c s ans in
+  (r = None <-> e = Some ENOMEM_) /\ (r <> None <-> e = None) /\
+  (st', r) = heap_reallocn st 0 p c s ans /\ (r = None -> st' = st).
+Proof.
+  unfold reallocarray. destruct (heap_reallocn st 0 p c s ans) as [st1 [q|]] eqn:E.
+  - repeat split; try discriminate; try reflexivity; intros; congruence.
+  - repeat split; try discriminate; try reflexivity; try congruence.
+    intros _. unfold heap_reallocn in E. rewrite cso_split in E. destruct (overflows c s); [congruence|].
+    unfold heap_realloc in E. apply realloc_zero_none_state in E. exact E.
+Qed.
+
+Lemma reallocarr_codes st p_null op c s ans :
+  let '(st', rc, op', e) := reallocarr st p_null op c s ans in
+  (p_null = true -> rc = EINVAL_ /\ e = Some EINVAL_ /\ op' = op /\ st' = st) /\
+  (p_null = false ->
+     match snd (heap_reallocn st 0 op c s ans) with
+     | None => rc = ENOMEM_ /\ e = Some ENOMEM_ /\ op' = op /\ st' = st
+     | Some q => rc = 0 /\ e = None /\ op' = q /\ st' = fst (heap_reallocn st 0 op c s ans)
+     end).
+Proof.
+  unfold reallocarr. destruct p_null; [split; [intros _; repeat split; reflexivity|discriminate]|].
+  pose proof (reallocarray_errno st op c s ans) as R. unfold reallocarray in *.
+  destruct (heap_reallocn st 0 op c s ans) as [st1 [q|]] eqn:E; cbn [fst snd].
+  - split; [discriminate|]. intros _. repeat split; reflexivity.
+  - split; [discriminate|]. intros _. destruct R as (_ & _ & _ & R). repeat split; try reflexivity. apply R. reflexivity.
+Qed.
+
+(* ---- well-formed requests succeed whenever the lower layers grant memory ---- *)
+
+Lemma MAX_lt_W64 : MI_MAX_ALLOC_SIZE < W64. Proof. reflexivity. Qed.
+
+Lemma overalloc_granted st heap size k off zero a u bytes :
+  k < 64 -> overalloc_size size (2 ^ k) <= MI_MAX_ALLOC_SIZE -> (2 ^ k <= MI_BLOCK_ALIGNMENT_MAX \/ off = 0) ->
+  exists st' q path,
+    malloc_zero_aligned_at_overalloc st heap size (2 ^ k) off zero (Some (a, u, bytes)) = (st', Some q, path).
+Proof.
+  intros Hk Hm Hd. pose proof MAX_lt_W64 as MW. unfold malloc_zero_aligned_at_overalloc.
+  destruct (MI_BLOCK_ALIGNMENT_MAX <? 2 ^ k) eqn:Eh.
+  - apply N.ltb_lt in Eh. destruct Hd as [Hd|Hd]; [lia|]. subst off. cbn [N.eqb negb].
+    rewrite alloc_block_granted by lia. do 3 eexists. reflexivity.
+  - rewrite alloc_block_granted by lia. do 3 eexists. reflexivity.
+Qed.
+
+Lemma aligned_granted st heap size k off zero o :
+  k < 64 -> size <= MI_MAX_ALLOC_SIZE -> overalloc_size size (2 ^ k) <= MI_MAX_ALLOC_SIZE ->
+  (2 ^ k <= MI_BLOCK_ALIGNMENT_MAX \/ off = 0) -> o_ans o <> None -> o_ans2 o <> None ->
+  exists st' q path, heap_malloc_zero_aligned_at st heap size (2 ^ k) off zero o = (st', Some q, path).
+Proof.
+  intros Hk Hs Hm Hd A1 A2. pose proof MAX_lt_W64 as MW.
+  destruct (o_ans o) as [[[a u] bytes]|] eqn:Ea; [|contradiction].
+  destruct (o_ans2 o) as [[[a2 u2] bytes2]|] eqn:Ea2; [|contradiction].
+  unfold heap_malloc_zero_aligned_at. rewrite pow2_checks by assumption.
+  match goal with |- context [if ?f then _ else _] => destruct f end.
+  - rewrite Ea. cbn [page_malloc_zero]. do 3 eexists. reflexivity.
+  - unfold malloc_zero_aligned_at_generic.
+    assert (F : (MI_MAX_ALLOC_SIZE - MI_PADDING_SIZE <? size) = false).
+    { apply N.ltb_ge. change MI_PADDING_SIZE with 0. lia. }
+    rewrite F. destruct ((off =? 0) && malloc_is_naturally_aligned size (2 ^ k)).
+    + rewrite Ea. destruct (heap_malloc_zero_granted st heap size zero a u bytes ltac:(lia) Hs) as (st1 & E).
+      rewrite E. destruct (N.land a (wsub (2 ^ k) 1) =? 0); [do 3 eexists; reflexivity|].
+      rewrite Ea2. apply overalloc_granted; assumption.
+    + rewrite Ea. apply overalloc_granted; assumption.
+Qed.
+
+Lemma realloc_aligned_granted st heap p n k off zero o :
+  k < 64 -> n <= MI_MAX_ALLOC_SIZE -> overalloc_size n (2 ^ k) <= MI_MAX_ALLOC_SIZE ->
+  (2 ^ k <= MI_BLOCK_ALIGNMENT_MAX \/ off = 0) -> o_ans o <> None -> o_ans2 o <> None ->
+  exists st' q, realloc_zero_aligned_at st heap p n (2 ^ k) off zero o = (st', Some q).
+Proof.
+  intros Hk Hs Hm Hd A1 A2. pose proof MAX_lt_W64 as MW. unfold realloc_zero_aligned_at.
+  destruct (2 ^ k <=? MI_INTPTR_SIZE).
+  { destruct (o_ans o) as [[[a u] bytes]|]; [|contradiction]. apply realloc_zero_granted; lia. }
+  destruct (aligned_granted st heap n k off zero o Hk Hs Hm Hd A1 A2) as (st1 & q & path & E).
+  rewrite E. cbn [fst]. destruct (p =? NULL); [do 2 eexists; reflexivity|].
+  destruct (realloc_aligned_inplace_b _ _ _ _ _); do 2 eexists; reflexivity.
+Qed.
+
+(* a request is well-formed: no count*size overflow, size (and, for the aligned entry points, the
+   over-allocation size) at most MI_MAX_ALLOC_SIZE, alignment a power of two, no offset with a huge
+   alignment, and the entry point's own argument conditions *)
+Definition call_wellformed (c : call) : Prop :=
+  call_overflows c = false /\ call_size c <= MI_MAX_ALLOC_SIZE /\
+  match call_alignment c with
+  | None => True
+  | Some (a, off) =>
+      (exists k, k < 64 /\ a = 2 ^ k) /\ (a <= MI_BLOCK_ALIGNMENT_MAX \/ off = 0) /\
+      overalloc_size (call_size c) a <= MI_MAX_ALLOC_SIZE
+  end /\
+  match c with
+  | CPosixMemalign pn a _ => pn = false /\ a mod MI_INTPTR_SIZE = 0
+  | CReallocarr pn _ _ _ => pn = false
+  | CPvalloc s => s < SIZE_MAX_ - os_page_size_default
+  | _ => True
+  end.
+
+Lemma wellformed_succeeds_if_granted st c o st' r :
+  special_call c = false -> call_wellformed c -> o_ans o <> None -> o_ans2 o <> None ->
+  exec st c o = (st', r) -> call_failed c r = false.
+Proof.
+  intros S (Ov & Hs & Hal & Hx) A1 A2 H. pose proof MAX_lt_W64 as MW.
+  assert (G : forall heap size zero, size <= MI_MAX_ALLOC_SIZE ->
+              exists st1 q, heap_malloc_zero st heap size zero (o_ans o) = (st1, Some q)).
+  { intros heap size zero Hsz. destruct (o_ans o) as [[[a u] bytes]|]; [|contradiction].
+    destruct (heap_malloc_zero_granted st heap size zero a u bytes ltac:(lia) Hsz) as (st1 & E). eauto. }
+  assert (GR : forall heap p n zero, n <= MI_MAX_ALLOC_SIZE ->
+              exists st1 q, realloc_zero st heap p n zero (o_ans o) = (st1, Some q)).
+  { intros heap p n zero Hsz. destruct (o_ans o) as [[[a u] bytes]|]; [|contradiction].
+    apply realloc_zero_granted; lia. }
+  destruct c; try discriminate;
+    cbn [call_failed call_size call_overflows call_alignment] in *; unfold exec in H; cbv beta iota zeta in H.
+  - destruct (G heap size false Hs) as (s1 & q & E). unfold heap_malloc in H. rewrite E in H. injection H as <- <-. reflexivity.
+  - destruct (G heap size true Hs) as (s1 & q & E). unfold heap_zalloc in H. rewrite E in H. injection H as <- <-. reflexivity.
+  - unfold heap_calloc, heap_zalloc in H. rewrite cso_split, Ov in H.
+    destruct (G heap (total count size) true Hs) as (s1 & q & E). rewrite E in H. injection H as <- <-. reflexivity.
+  - unfold heap_mallocn, heap_malloc in H. rewrite cso_split, Ov in H.
+    destruct (G heap (total count size) false Hs) as (s1 & q & E). rewrite E in H. injection H as <- <-. reflexivity.
+  - unfold heap_realloc in H. destruct (GR heap p newsize false Hs) as (s1 & q & E). rewrite E in H. injection H as <- <-. reflexivity.
+  - unfold heap_reallocn, heap_realloc in H. rewrite cso_split, Ov in H.
+    destruct (GR heap p (total count size) false Hs) as (s1 & q & E). rewrite E in H. injection H as <- <-. reflexivity.
+  - unfold heap_reallocf, heap_realloc in H. destruct (GR heap p newsize false Hs) as (s1 & q & E). rewrite E in H.
+    injection H as <- <-. reflexivity.
+  - unfold heap_rezalloc in H. destruct (GR heap p newsize true Hs) as (s1 & q & E). rewrite E in H. injection H as <- <-. reflexivity.
+  - unfold heap_recalloc, heap_rezalloc in H. rewrite cso_split, Ov in H.
+    destruct (GR heap p (total count size) true Hs) as (s1 & q & E). rewrite E in H. injection H as <- <-. reflexivity.
+  - destruct Hal as ((k & Hk & ->) & Hd & Hm).
+    destruct (aligned_granted st heap size k offset false o Hk Hs Hm Hd A1 A2) as (s1 & q & path & E).
+    rewrite E in H. injection H as <- <-. reflexivity.
+  - destruct Hal as ((k & Hk & ->) & Hd & Hm).
+    destruct (aligned_granted st heap size k offset true o Hk Hs Hm Hd A1 A2) as (s1 & q & path & E).
+    rewrite E in H. injection H as <- <-. reflexivity.
+  - destruct Hal as ((k & Hk & ->) & Hd & Hm). unfold heap_calloc_aligned_at in H. rewrite cso_split, Ov in H.
+    destruct (aligned_granted st heap (total count size) k offset true o Hk Hs Hm Hd A1 A2) as (s1 & q & path & E).
+    rewrite E in H. injection H as <- <-. reflexivity.
+  - destruct Hal as ((k & Hk & ->) & Hd & Hm).
+    destruct (realloc_aligned_granted st heap p newsize k offset false o Hk Hs Hm Hd A1 A2) as (s1 & q & E).
+    rewrite E in H. injection H as <- <-. reflexivity.
+  - destruct Hal as ((k & Hk & ->) & Hd & Hm).
+    destruct (realloc_aligned_granted st heap p newsize k offset true o Hk Hs Hm Hd A1 A2) as (s1 & q & E).
+    rewrite E in H. injection H as <- <-. reflexivity.
+  - destruct Hal as ((k & Hk & ->) & Hd & Hm). unfold heap_recalloc_aligned_at in H. rewrite cso_split, Ov in H.
+    destruct (realloc_aligned_granted st heap p (total count size) k offset true o Hk Hs Hm Hd A1 A2) as (s1 & q & E).
+    rewrite E in H. injection H as <- <-. reflexivity.
+  - destruct Hal as ((k & Hk & ->) & Hd & Hm). unfold realloc_zero_aligned in H.
+    destruct (2 ^ k <=? MI_INTPTR_SIZE).
+    + destruct (GR heap p newsize false Hs) as (s1 & q & E). rewrite E in H. injection H as <- <-. reflexivity.
+    + destruct (realloc_aligned_granted st heap p newsize k (p mod 2 ^ k) false o Hk Hs Hm Hd A1 A2) as (s1 & q & E).
+      rewrite E in H. injection H as <- <-. reflexivity.
+  - destruct Hal as ((k & Hk & ->) & Hd & Hm). unfold realloc_zero_aligned in H.
+    destruct (2 ^ k <=? MI_INTPTR_SIZE).
+    + destruct (GR heap p newsize true Hs) as (s1 & q & E). rewrite E in H. injection H as <- <-. reflexivity.
+    + destruct (realloc_aligned_granted st heap p newsize k (p mod 2 ^ k) true o Hk Hs Hm Hd A1 A2) as (s1 & q & E).
+      rewrite E in H. injection H as <- <-. reflexivity.
+  - destruct Hal as ((k & Hk & ->) & Hd & Hm). destruct Hx as (-> & Hmod). unfold posix_memalign in H.
+    apply N.eqb_eq in Hmod. rewrite Hmod in H. cbn [negb] in H. rewrite pow2_checks in H by assumption.
+    unfold malloc_aligned in H.
+    destruct (aligned_granted st 0 size k 0 false o Hk Hs Hm Hd A1 A2) as (s1 & q & path & E).
+    rewrite E in H. cbn [fst] in H. injection H as <- <-. reflexivity.
+  - destruct Hal as ((k & Hk & ->) & Hd & Hm). unfold memalign, malloc_aligned in H.
+    destruct (aligned_granted st 0 size k 0 false o Hk Hs Hm Hd A1 A2) as (s1 & q & path & E).
+    rewrite E in H. injection H as <- <-. reflexivity.
+  - destruct Hal as ((k & Hk & Ek) & Hd & Hm). unfold valloc, memalign, malloc_aligned in H. rewrite Ek in *.
+    destruct (aligned_granted st 0 size k 0 false o Hk Hs Hm Hd A1 A2) as (s1 & q & path & E).
+    rewrite E in H. injection H as <- <-. reflexivity.
+  - destruct Hal as ((k & Hk & Ek) & Hd & Hm). unfold pvalloc in H.
+    assert (F : (SIZE_MAX_ - os_page_size_default <=? size) = false) by (apply N.leb_gt; assumption).
+    rewrite F in H. unfold malloc_aligned in H. rewrite Ek in *.
+    destruct (aligned_granted st 0 (align_up size (2 ^ k)) k 0 false o Hk Hs Hm Hd A1 A2) as (s1 & q & path & E).
+    rewrite E in H. injection H as <- <-. reflexivity.
+  - destruct Hal as ((k & Hk & ->) & Hd & Hm). unfold aligned_alloc, malloc_aligned in H.
+    destruct (aligned_granted st 0 size k 0 false o Hk Hs Hm Hd A1 A2) as (s1 & q & path & E).
+    rewrite E in H. injection H as <- <-. reflexivity.
+  - unfold reallocarray, heap_reallocn, heap_realloc in H. rewrite cso_split, Ov in H.
+    destruct (GR 0 p (total count size) false Hs) as (s1 & q & E). rewrite E in H. injection H as <- <-. reflexivity.
+  - subst p_null. unfold reallocarr, reallocarray, heap_reallocn, heap_realloc in H. rewrite cso_split, Ov in H.
+    destruct (GR 0 op (total count size) false Hs) as (s1 & q & E). rewrite E in H. injection H as <- <-. reflexivity.
+Qed.
+
+(* ------------------------------------------------------------------------------------- *)
+(* J. size and alignment contract (C03): the arithmetic of the aligned paths                *)
+(* ------------------------------------------------------------------------------------- *)
+
+Lemma overalloc_aligned size k offset p usable page_start bs i :
+  k < 64 -> 2 ^ k <= MI_BLOCK_ALIGNMENT_MAX -> size <= MI_MAX_ALLOC_SIZE -> offset < W64 ->
+  p + usable < W64 -> overalloc_size size (2 ^ k) <= usable ->
+  let adjust := aligned_adjust p (2 ^ k) offset in
+  (p + adjust + offset) mod 2 ^ k = 0 /\ adjust < 2 ^ k /\ adjust + size <= usable /\
+  (0 < bs -> bs < W64 -> usable <= bs -> p = page_start + i * bs ->
+   ptr_unalign page_start bs (p + adjust) = p).
+Proof.
+  intros Hk Ha Hs Ho Hp Hu. cbv zeta. pose proof (pow2_pos k) as H2.
+  destruct (aligned_adjust_spec p k offset Hk) as (S1 & S2). cbv zeta in S1, S2.
+  rewrite overalloc_size_small in Hu by assumption.
+  assert (Hm : MI_MAX_ALIGN_SIZE = 16) by reflexivity.
+  split; [exact S2|]. split; [exact S1|]. split; [lia|].
+  intros Hb0 Hb Hub ->. apply unalign_correct; lia.
+Qed.
+
+Lemma mod_divisor_chain p a b : b <> 0 -> p mod a = 0 -> a mod b = 0 -> p mod b = 0.
+Proof.
+  intros Hb H1 H2. destruct (N.eq_dec a 0) as [->|Ha].
+  - destruct p as [|pp]; [apply N.mod_0_l; assumption|]. cbn in H1. discriminate.
+  - apply N.mod_divide in H1; [|assumption]. apply N.mod_divide in H2; [|assumption].
+    apply N.mod_divide; [assumption|]. eapply N.divide_trans; eassumption.
+Qed.
+
+Lemma naturally_aligned_sound size k p :
+  k < 64 -> malloc_is_naturally_aligned size (2 ^ k) = true ->
+  p mod 8 = 0 -> (16 <= size -> p mod 16 = 0) ->
+  (good_size size <= MI_MAX_ALIGN_GUARANTEE -> p mod good_size size = 0) ->
+  p mod 2 ^ k = 0.
+Proof.
+  intros Hk H P8 P16 Pg. pose proof (pow2_pos k) as H2. unfold malloc_is_naturally_aligned in H.
+  destruct (size <? 2 ^ k) eqn:E1; [discriminate|]. apply N.ltb_ge in E1.
+  destruct (2 ^ k <=? MI_MAX_ALIGN_SIZE) eqn:E2.
+  - apply N.leb_le in E2. change MI_MAX_ALIGN_SIZE with (2 ^ 4) in E2.
+    apply N.pow_le_mono_r_iff in E2; [|lia].
+    assert (K : k = 0 \/ k = 1 \/ k = 2 \/ k = 3 \/ k = 4) by lia.
+    destruct K as [->|[->|[->|[->| ->]]]].
+    + change (2 ^ 0) with 1. apply N.mod_1_r.
+    + change (2 ^ 1) with 2. lia.
+    + change (2 ^ 2) with 4. lia.
+    + change (2 ^ 3) with 8. exact P8.
+    + change (2 ^ 4) with 16 in *. apply P16. exact E1.
+  - apply andb_prop in H as (G1 & G2). apply N.leb_le in G1. apply N.eqb_eq in G2.
+    rewrite wsub_small in G2 by lia. rewrite land_mask in G2.
+    eapply mod_divisor_chain; [lia|apply Pg; exact G1|exact G2].
+Qed.
+
+Lemma bin_align s : s <= MI_MEDIUM_OBJ_SIZE_MAX ->
+  (s <= 8 /\ bin_size (mi_bin s) = 8) \/ (8 < s /\ bin_size (mi_bin s) mod 16 = 0 /\ 0 < bin_size (mi_bin s)).
+Proof.
+  intros H. pose proof (forallN_spec _ _ sweep_bin_align s ltac:(lia)) as C. unfold chk_bin_align in C.
+  cbv zeta in C. apply orb_prop in C as [C|C].
+  - apply andb_prop in C as (C1 & C2). apply N.leb_le in C1. apply N.eqb_eq in C2. left. split; assumption.
+  - apply andb_prop in C as (C & C3). apply andb_prop in C as (C1 & C2).
+    apply N.ltb_lt in C1. apply N.eqb_eq in C2. apply N.ltb_lt in C3. right. repeat split; assumption.
+Qed.
+
+Lemma reachable_bin_sizes b : In b reachable_bins -> bin_size b = 8 \/ bin_size b mod 16 = 0.
+Proof.
+  intros H. pose proof sweep_bin_table_align as S. rewrite forallb_forall in S. specialize (S b H).
+  unfold chk_bin_table_align in S. cbv zeta in S. apply orb_prop in S as [S|S]; apply N.eqb_eq in S; tauto.
+Qed.
+
+Lemma min_alignment size page_start bs i :
+  page_start mod 16 = 0 ->
+  (size <= MI_MEDIUM_OBJ_SIZE_MAX -> bs = bin_size (mi_bin size)) ->
+  (MI_MEDIUM_OBJ_SIZE_MAX < size -> i = 0) ->
+  let p := page_start + i * bs in
+  p mod 8 = 0 /\ (16 <= size -> p mod 16 = 0) /\ (8 < size -> p mod 16 = 0).
+Proof.
+  intros Hp Hb Hi. cbv zeta.
+  destruct (N.le_gt_cases size MI_MEDIUM_OBJ_SIZE_MAX) as [Hs|Hs].
+  - specialize (Hb Hs). destruct (bin_align size Hs) as [(S1 & S2)|(S1 & S2 & S3)]; rewrite <- Hb in *.
+    + subst bs. repeat split; lia.
+    + assert (E : (page_start + i * bs) mod 16 = 0) by (apply mod16_add_mul; assumption).
+      repeat split; try (intros; exact E). lia.
+  - specialize (Hi Hs). subst i. rewrite N.mul_0_l, N.add_0_r. repeat split; try (intros; exact Hp). lia.
+Qed.
+
+Lemma usable_of_interior st heap size k offset zero o st' q path :
+  wf st -> k < 64 -> size < W64 -> offset < W64 -> oracles_ok st size (2 ^ k) offset o ->
+  heap_malloc_zero_aligned_at st heap size (2 ^ k) offset zero o = (st', Some q, path) ->
+  exists b p u bytes0,
+    (o_ans o = Some (p, u, bytes0) \/ o_ans2 o = Some (p, u, bytes0)) /\
+    lookup st' q = Some b /\ q = p + b_adjust b /\ block_start q b = p /\ block_usable b = u /\
+    usable_size st' q = u - b_adjust b /\ size <= usable_size st' q /\
+    (q + offset) mod 2 ^ k = 0 /\ expand st' q size = Some q /\
+    (forall x, x <> q -> lookup (free st' q) x = lookup st x) /\ lookup (free st' q) q = None.
+Proof.
+  intros W Hk Hs Ho OK H.
+  destruct (aligned_result _ _ _ _ _ _ _ _ _ _ W Hk Hs Ho OK H) as (blk & R & D).
+  destruct R as (E & Fr & Ok & Fit & Rq & Rz & Rh & Zb).
+  destruct D as (Al & p & u & b0 & Ans & Eq & Eu & Hfit & _ & _).
+  assert (L : lookup st' q = Some blk) by (rewrite E, lookup_add, N.eqb_refl; reflexivity).
+  assert (Hq : q <> NULL) by (destruct Ok as (_ & _ & _ & _ & _ & Ok); unfold NULL; lia).
+  assert (U : usable_size st' q = b_usable blk) by (apply (usable_live _ _ _ L Hq)).
+  exists blk, p, u, b0. split; [exact Ans|]. split; [exact L|]. split; [exact Eq|].
+  unfold block_start, block_usable. split; [lia|]. split; [lia|]. split; [rewrite U; exact Eu|].
+  split; [rewrite U; exact Fit|]. split; [exact Al|].
+  split.
+  { unfold expand. assert (F : (q =? NULL) = false) by (apply N.eqb_neq; assumption). rewrite F, U.
+    assert (G : (b_usable blk <? size) = false) by (apply N.ltb_ge; exact Fit). rewrite G. reflexivity. }
+  assert (F : (q =? NULL) = false) by (apply N.eqb_neq; assumption).
+  split.
+  - intros x Hx. rewrite lookup_free, F. cbn [negb andb].
+    assert (G : (q =? x) = false) by (apply N.eqb_neq; intros ->; apply Hx; reflexivity).
+    rewrite G, E, lookup_add, G. reflexivity.
+  - rewrite lookup_free, F, N.eqb_refl. reflexivity.
+Qed.
+
+(* ------------------------------------------------------------------------------------- *)
+(* K. the repaired defect, for the record                                                   *)
+(* ------------------------------------------------------------------------------------- *)
+
+(* The behaviour before the repair "zero the whole new block when a zero-initialised block is
+   re-allocated": the new block was allocated WITHOUT zeroing and cleared only up to newsize.
+   Only used by the example below. *)
+Definition realloc_zero_old (st : state) (heap p newsize : N) (zero : bool) (ans : answer) : state * option N :=
+  let size := usable_size st p in
+  if realloc_inplace_b size newsize then (update st p (set_req newsize), Some p)
+  else
+    match heap_malloc_zero st heap newsize false ans with
+    | (_, None) => (st, None)
+    | (st1, Some newp) =>
+        (realloc_finish st1 p newp size newsize zero true (bytes_of st p), Some newp)
+    end.
+
+(* a two-step monotone chain 8 -> 20 -> 28 on dirty memory: zalloc(8) in a 8-byte block, grow to 20
+   (moves into a dirty 32-byte block), grow to 28 (stays in place) *)
+Definition dirty (n : N) : list N := N.recursion [] (fun _ acc => 7 :: acc) n.
+Definition chain_example (rz : state -> N -> N -> N -> bool -> answer -> state * option N) : N :=
+  let '(s0, _) := heap_malloc_zero [] 0 8 true (Some (4096, 8, dirty 8)) in
+  let '(s1, _) := rz s0 0 4096 20 true (Some (8192, 32, dirty 32)) in
+  let '(s2, _) := rz s1 0 8192 28 true None in
+  byte_at (bytes_of s2 8192) 24.
+
+Lemma chain_example_old_code_nonzero : chain_example realloc_zero_old = 7.
+Proof. vm_compute. reflexivity. Qed.
+
+Lemma chain_example_repaired_zero : chain_example realloc_zero = 0.
+Proof. vm_compute. reflexivity. Qed.
+
+(* ------------------------------------------------------------------------------------- *)
+(* L. boolean forms of the hypotheses (to run them on concrete states)                      *)
+(* ------------------------------------------------------------------------------------- *)
+
+Definition block_ok_b (q : N) (b : block) : bool :=
+  (blen (b_bytes b) =? b_usable b) && (0 <? b_usable b) && (b_req b <=? b_usable b) &&
+  (b_adjust b <=? q) && (q + b_usable b <? W64) && (0 <? q).
+
+Definition wf_b (st : state) : bool := forallb (fun e => block_ok_b (fst e) (snd e)) st.
+
+Lemma lookup_In st q b : lookup st q = Some b -> In (q, b) st.
+Proof.
+  induction st as [|[k v] r IH]; cbn [lookup]; [discriminate|].
+  destruct (k =? q) eqn:E.
+  - apply N.eqb_eq in E. subst k. intros H. injection H as ->. left. reflexivity.
+  - intros H. right. apply IH. exact H.
+Qed.
+
+Lemma wf_b_sound st : wf_b st = true -> wf st.
+Proof.
+  intros H q b L. apply lookup_In in L. unfold wf_b in H. rewrite forallb_forall in H.
+  specialize (H _ L). cbn [fst snd] in H. unfold block_ok_b in H.
+  repeat (apply andb_prop in H as (H & ?)).
+  unfold block_ok. repeat split;
+    repeat match goal with
+           | X : (_ =? _) = true |- _ => apply N.eqb_eq in X
+           | X : (_ <=? _) = true |- _ => apply N.leb_le in X
+           | X : (_ <? _) = true |- _ => apply N.ltb_lt in X
+           end; assumption.
+Qed.
+
+Definition answer_ok_b (st : state) (size : N) (ans : answer) : bool :=
+  match ans with
+  | None => true
+  | Some (p, u, bytes) =>
+      (0 <? p) && (p + u <? W64) && (blen bytes =? u) && (0 <? u) && (size <=? u) &&
+      forallb (fun e => (p + u <=? block_start (fst e) (snd e)) ||
+                        (block_start (fst e) (snd e) + block_usable (snd e) <=? p)) st
+  end.
+
+Lemma answer_ok_b_sound st size ans : answer_ok_b st size ans = true -> answer_ok st size ans.
+Proof.
+  destruct ans as [[[p u] bytes]|]; [|trivial]. cbn [answer_ok_b answer_ok]. intros H.
+  repeat (apply andb_prop in H as (H & ?)).
+  repeat match goal with
+         | X : (_ =? _) = true |- _ => apply N.eqb_eq in X
+         | X : (_ <=? _) = true |- _ => apply N.leb_le in X
+         | X : (_ <? _) = true |- _ => apply N.ltb_lt in X
+         end.
+  repeat (split; [assumption|]). intros q b L. apply lookup_In in L.
+  match goal with X : forallb _ st = true |- _ => rewrite forallb_forall in X; specialize (X _ L); cbn [fst snd] in X;
+    apply orb_prop in X as [X|X]; apply N.leb_le in X; [left|right]; exact X end.
+Qed.
+
+Fixpoint all_zero_from (l : list N) (i : N) : bool :=
+  match l with
+  | [] => true
+  | x :: r => if i =? 0 then (x =? 0) && all_zero_from r 0 else all_zero_from r (N.pred i)
+  end.
+
+Lemma all_zero_from_sound l : forall i, all_zero_from l i = true -> forall j, i <= j -> byte_at l j = 0.
+Proof.
+  induction l as [|x r IH]; intros i H j Hj; cbn [byte_at all_zero_from] in *; [reflexivity|].
+  destruct (i =? 0) eqn:Ei.
+  - apply N.eqb_eq in Ei. subst i. apply andb_prop in H as (H1 & H2). apply N.eqb_eq in H1.
+    destruct (j =? 0); [exact H1|]. apply (IH 0 H2). lia.
+  - apply N.eqb_neq in Ei. assert (F : (j =? 0) = false) by (apply N.eqb_neq; lia). rewrite F.
+    apply (IH (N.pred i) H). lia.
+Qed.
+
+Definition zinv_b (st : state) : bool :=
+  forallb (fun e => if b_zero (snd e) then all_zero_from (b_bytes (snd e)) (b_req (snd e)) else true) st.
+
+Lemma zinv_b_sound st : zinv_b st = true -> zinv st.
+Proof.
+  intros H q b L Hz i Hi. apply lookup_In in L. unfold zinv_b in H. rewrite forallb_forall in H.
+  specialize (H _ L). cbn [snd] in H. rewrite Hz in H. eapply all_zero_from_sound; eassumption.
 Qed.
